@@ -1,32 +1,78 @@
-// C04 sub-harness -- currently the SMOKE TEST of the shared generators (mkmsg.rs)
-// and wire readers (wire.rs); NOT yet the C04 oracle.
+// C04 -- encoded BGP messages are well-framed and decode to the same routes at the peer.
 //
-// What it proves: every value mkmsg generates is encoded by the sender codec,
-// is structurally readable by the independent wire readers, is accepted by the
-// receiver codec (negotiate(remote, local)) and comes back equal (NLRI multiset,
-// next hop, attributes modulo the fate documented in mkmsg::AttrFate).  A value
-// that does not come back is reported as a violation with a replayable case
-// string; each one found on the real code is triaged in
-// /verif/notes/gen-findings.md (generator bugs were fixed instead).
+// Subject: rustybgp_packet::bgp::PeerCodec::{negotiate, encode_to, try_parse}.
+// Technique: bounded-exhaustive enumeration (no sampling).  Generators: mkmsg.rs,
+// independent frame / attribute / NLRI walkers: wire.rs.
 //
-// TODO(C04): the real oracle still has to add
-//   * the entry-count ladder 0,1,2,k-1,k,k+1,2k,3k+1 per (family, attr size, add-path)
-//     with the per-frame size / "no frame without NLRI while entries remain" clauses;
-//   * the attribute-size ladder (mkmsg::attr_block_of_size) up to max+1;
-//   * all 1024 capability pairs (mkmsg::codec_pairs_desc) incl. 2-byte-AS
-//     reconciliation expectations (an independent model of RFC 6793 §4.2.3);
-//   * decode(encode(decode(b))) fixed point; encode_to's returned count == frames;
-//   * OPEN capability lists crossing 255 bytes (mkmsg::capability_sets_oversize);
-//   * RFC 8277 §2.4 reading of withdrawals (wire::NlriOpts::withdraw).
+// One case = one Message handed to `negotiate(local, remote).encode_to`, the bytes it
+// left in the buffer, and what `negotiate(remote, local).try_parse` makes of them.
+//
+// ORACLE (clauses are evaluated in this order; structural clauses stop at the first
+// failure so that only the root cause is reported, value clauses are independent):
+//   encode-panics / encode-fails   the encoder returns normally; `Err` is accepted only
+//                      for an input that cannot be encoded (one entry does not fit next
+//                      to the attribute block) and only if what it left in the buffer is
+//                      a sequence of complete, well-formed frames that the peer decodes
+//                      to a subset of the submitted routes (the daemon sends the buffer
+//                      whatever encode_to returns: event/mod.rs flush_tx `.unwrap_or(1)`)
+//   length-field-inconsistent/<field>   independent walk (wire.rs): header / withdrawn /
+//                      total-attribute / per-attribute / MP lengths consistent, the NLRI
+//                      lists are consumed exactly
+//   frame-too-long     every frame <= 4096, or <= 65535 with RFC 8654 negotiated (a frame
+//                      whose 16-bit length field wrapped is recognised and reported here)
+//   frame-count        the returned Ok(count) equals the frames in the buffer
+//   decode-rejects / decode-panics   the peer's codec accepts every frame
+//   entries-dropped / entries-duplicated   multiset of (prefix, path-id) delivered ==
+//                      submitted (labeled-unicast withdrawals modulo RFC 8277 §2.4).
+//                      `Ok` for an input that cannot be encoded is a drop.
+//   nexthop-differs    every route-carrying frame delivers the submitted next hop
+//   attrs-differ / attr-rejected   attributes equal modulo the documented
+//                      canonicalisation: extended-length flag (mkmsg::attr_key),
+//                      unknown optional non-transitive attributes discarded, and on
+//                      2-byte-AS sessions the RFC 6793 §4.2.3 reconstruction, for which
+//                      an independent model is used: the path must come back identical
+//                      unless a confederation segment carries a 4-byte ASN or is not
+//                      leading (then RFC 6793 guarantees nothing: anything accepted)
+//   fixed-point        for every value x obtained by decoding: decode(encode(x)) == x
+//                      (same direction: sender codec, then receiver codec; strict ==)
+//   as4-reconcile      the sender's 2-byte frame is forwarded by a modelled OLD speaker
+//                      (AS4_PATH passed on with the Partial bit, own 2-byte AS prepended
+//                      to AS_PATH); a NEW speaker behind it must reconstruct
+//                      [old AS] + original path (RFC 6793 §4.2.3; only for paths without
+//                      confederation segments)
+//   open-capability-length-overflow/<kind>   OPEN whose capabilities need more than the
+//                      one-byte lengths can express: either a well-formed OPEN (several
+//                      capability parameters or RFC 9072) that the peer decodes to the
+//                      same capabilities, or Err with an empty buffer; a panic, a wrapped
+//                      length byte or dropped capabilities is the violation
+//   frame-too-long/notification   NOTIFICATION data that cannot fit the frame (the daemon echoes
+//                      the offending frame): Err with an empty buffer or a frame <= maximum that
+//                      carries a prefix of the data is accepted
+// NOT alarmed (accepted): order of frames / of entries; packing density; a Reach / Unreach
+// with zero entries (never built by the daemon: only the framing clauses apply, an empty
+// MP_UNREACH legitimately reads as End-of-RIB); attribute order.
+//
+// Case descriptors (replay):  u:<fam>:<pair>:<r|u>:<shape>:<attr>:<nh>:<n>
+//     shape  s = n small bulk NLRI   b = n maximal-shape bulk NLRI   m<j> = j small then big
+//            d = every big NLRI twice with path ids 1, 2 (add-path)   x = largest named value,
+//            then big   v<i> = named value i   c<i> = code-only wire form i   A = all named
+//     attr   a<size> = mkmsg::attr_block_of_size(size)   t<i> = mkmsg::attribute_sets()[i]
+//            e<i> = extra_sets()[i] of this file
+//     nh     index into mkmsg::nexthops(family)
+//   eor:<fam>:<pair>   open:<generator>   notif:<idx>:<x|n>   notifbig:<len>:<x|n>
+//   rr:<idx>:<x|n>   keepalive:<x|n>   as4hop:<fam>:<attr set>
 
 use crate::mkmsg::{self, NlriSize, PairDesc};
-use crate::vx::report::{catch, hex, Report, Violation};
+use crate::vx::enumr::par_range;
+use crate::vx::report::{catch, hex, trunc, Report, Violation};
 use crate::wire;
+use bytes::BytesMut;
 use rustybgp_packet::bgp::{
-    Attribute, Capability, Family, Message, Nexthop, ParsedMessage, ParsedUpdate, PathNlri, PeerCodec,
-
+    Attribute, Capability, Family, HoldTime, Message, Nexthop, Nlri, Notification, Open, ParsedMessage,
+    ParsedUpdate, PathNlri, PeerCodec, Update,
 };
-use std::collections::BTreeMap;
+use std::collections::{BTreeMap, BTreeSet, HashMap, HashSet};
+use std::sync::{Arc, Mutex, OnceLock};
 
 fn fam(i: usize) -> Family {
     mkmsg::families()[i]
@@ -36,179 +82,366 @@ fn viol(clause: &str, shape: String, what: String, case: &str) -> Violation {
     Violation { sig: format!("C04/{clause}/{shape}"), what, case: case.to_string() }
 }
 
-/// Sorted debug strings: multiset comparison without Ord on the subject types.
-fn multiset<T: std::fmt::Debug>(v: &[T]) -> Vec<String> {
-    let mut s: Vec<String> = v.iter().map(|x| format!("{x:?}")).collect();
-    s.sort();
-    s
+fn attribute_sets() -> &'static Vec<(String, Vec<Attribute>)> {
+    static S: OnceLock<Vec<(String, Vec<Attribute>)>> = OnceLock::new();
+    S.get_or_init(mkmsg::attribute_sets)
 }
 
-struct Decoded {
-    reach: Vec<PathNlri>,
-    unreach: Vec<PathNlri>,
-    nexthops: Vec<Option<Nexthop>>,
-    attrs: Vec<Vec<Attribute>>,
-    eor: Vec<Family>,
-    others: usize,
-    err_attrs: usize,
+fn hash64(b: &[u8]) -> u64 {
+    use std::hash::Hasher;
+    let mut h = std::collections::hash_map::DefaultHasher::new();
+    h.write(b);
+    h.finish()
 }
 
-/// Encode with the sender, walk with wire.rs, decode with the receiver.
-/// Err = (clause, detail).
-fn transfer(
-    family: Family,
-    d: &PairDesc,
-    msg: &Message,
-    n_entries: usize,
-    is_reach: bool,
-) -> Result<(Vec<Vec<u8>>, Decoded), (String, String)> {
-    let (mut tx, mut rx) = mkmsg::pair_from_desc(family, d);
-    let frames = match catch(|| mkmsg::encode(&mut tx, msg)) {
-        Err(p) => return Err(("encode-panics".into(), p)),
-        Ok(Err(e)) => return Err(("encode-fails".into(), e)),
-        Ok(Ok(f)) => f,
-    };
-    // independent structural walk
-    let mut seen = 0usize;
-    for (i, f) in frames.iter().enumerate() {
-        let fr = wire::read_frame(f, 65535).map_err(|e| ("frame-malformed".to_string(), format!("frame {i}: {e}; bytes={}", hex(f))))?;
-        if fr.len != f.len() {
-            return Err(("frame-malformed".into(), format!("frame {i}: reader length {} != {}", fr.len, f.len())));
+// ---------------------------------------------------------------------------
+// case descriptors
+// ---------------------------------------------------------------------------
+
+#[derive(Clone, Copy, Debug, PartialEq, Eq)]
+enum Shape {
+    Small,
+    Big,
+    Mix(usize),
+    Dup,
+    MaxThenBig,
+    Named(usize),
+    CodeOnly(usize),
+    AllNamed,
+}
+
+impl Shape {
+    fn name(&self) -> String {
+        match self {
+            Shape::Small => "s".into(),
+            Shape::Big => "b".into(),
+            Shape::Mix(j) => format!("m{j}"),
+            Shape::Dup => "d".into(),
+            Shape::MaxThenBig => "x".into(),
+            Shape::Named(i) => format!("v{i}"),
+            Shape::CodeOnly(i) => format!("c{i}"),
+            Shape::AllNamed => "A".into(),
         }
-        if let wire::Body::Update(u) = &fr.body {
-            let o = wire::NlriOpts::reach(d.tx_addpath());
-            let walk = |k: wire::NlriKind, sp: wire::Span| -> Result<usize, (String, String)> {
-                wire::walk_nlri(k, o, f, sp).map(|v| v.len()).map_err(|e| ("nlri-malformed".to_string(), format!("frame {i}: {e}; bytes={}", hex(f))))
-            };
-            seen += walk(wire::NlriKind::Ipv4, u.withdrawn)?;
-            seen += walk(wire::NlriKind::Ipv4, u.nlri)?;
-            for (afi, safi, sp) in u.mp_reach.iter().map(|m| (m.afi, m.safi, m.nlri)).chain(u.mp_unreach.iter().map(|m| (m.afi, m.safi, m.nlri))) {
-                if (afi, safi) != (family.afi(), family.safi()) {
-                    return Err(("frame-malformed".into(), format!("frame {i}: MP attribute for {afi}/{safi}, expected {}/{}", family.afi(), family.safi())));
-                }
-                match wire::nlri_kind(afi, safi) {
-                    Some(k) => seen += walk(k, sp)?,
-                    None => seen = usize::MAX / 2, // families without an independent walker
-                }
+    }
+    fn parse(s: &str) -> Option<Shape> {
+        let num = |t: &str| t.parse::<usize>().ok();
+        Some(match s {
+            "s" => Shape::Small,
+            "b" => Shape::Big,
+            "d" => Shape::Dup,
+            "x" => Shape::MaxThenBig,
+            "A" => Shape::AllNamed,
+            _ if s.starts_with('m') => Shape::Mix(num(&s[1..])?),
+            _ if s.starts_with('v') => Shape::Named(num(&s[1..])?),
+            _ if s.starts_with('c') => Shape::CodeOnly(num(&s[1..])?),
+            _ => return None,
+        })
+    }
+}
+
+#[derive(Clone, Copy, Debug, PartialEq, Eq)]
+enum AttrSpec {
+    Block(usize),
+    Set(usize),
+    /// attribute sets of this file (4-byte ASNs next to confederation segments, sets, aggregator)
+    Extra(usize),
+}
+
+/// Further AS_PATH / AGGREGATOR shapes for the 2-byte-AS sessions (RFC 6793 §4.2.2-4.2.3,
+/// RFC 5065 §3: confederation segments lead the path).
+fn extra_sets() -> &'static Vec<(String, Vec<Attribute>)> {
+    static S: OnceLock<Vec<(String, Vec<Attribute>)>> = OnceLock::new();
+    S.get_or_init(|| {
+        let wide = 4_200_000_000u32;
+        let o = mkmsg::origin(0);
+        vec![
+            ("confed+wide#seq".to_string(), vec![o.clone(), mkmsg::as_path(&[(3, vec![64512, 64513]), (2, vec![65001, wide, 65003])])]),
+            ("confed+wide#seq+set".to_string(), vec![o.clone(), mkmsg::as_path(&[(3, vec![64512]), (4, vec![64513, 64514]), (2, vec![wide]), (1, vec![65010, wide + 1])])]),
+            ("set-wide".to_string(), vec![o.clone(), mkmsg::as_path(&[(2, vec![65001]), (1, vec![wide, 65002])])]),
+            ("wide+aggregator-wide".to_string(), vec![o.clone(), mkmsg::as_path(&[(2, vec![wide, 65001])]), mkmsg::aggregator(wide + 7, std::net::Ipv4Addr::new(192, 0, 2, 9)), mkmsg::communities(&[0xfde9_0001])]),
+            ("wide+aggregator-narrow".to_string(), vec![o.clone(), mkmsg::as_path(&[(2, vec![wide, 65001])]), mkmsg::aggregator(65001, std::net::Ipv4Addr::new(192, 0, 2, 9))]),
+            ("narrow+aggregator-wide".to_string(), vec![o.clone(), mkmsg::as_path(&[(2, vec![65001])]), mkmsg::aggregator(wide, std::net::Ipv4Addr::new(192, 0, 2, 9))]),
+            ("255-wide".to_string(), vec![o.clone(), mkmsg::as_path(&[(2, (0..255).map(|i| wide + i).collect())])]),
+            ("confed-only+aggregator-wide".to_string(), vec![o, mkmsg::as_path(&[(3, vec![64512])]), mkmsg::aggregator(wide, std::net::Ipv4Addr::new(192, 0, 2, 9))]),
+        ]
+    })
+}
+
+impl AttrSpec {
+    fn name(&self) -> String {
+        match self {
+            AttrSpec::Block(t) => format!("a{t}"),
+            AttrSpec::Set(i) => format!("t{i}"),
+            AttrSpec::Extra(i) => format!("e{i}"),
+        }
+    }
+    fn parse(s: &str) -> Option<AttrSpec> {
+        let n = s.get(1..)?.parse::<usize>().ok()?;
+        match s.as_bytes().first()? {
+            b'a' => Some(AttrSpec::Block(n)),
+            b't' => Some(AttrSpec::Set(n)),
+            b'e' => Some(AttrSpec::Extra(n)),
+            _ => None,
+        }
+    }
+    fn attrs(&self) -> Result<Vec<Attribute>, String> {
+        match self {
+            AttrSpec::Block(t) => Ok(mkmsg::attr_block_of_size(*t).0),
+            AttrSpec::Set(i) => attribute_sets().get(*i).map(|x| x.1.clone()).ok_or_else(|| format!("attribute set {i}")),
+            AttrSpec::Extra(i) => extra_sets().get(*i).map(|x| x.1.clone()).ok_or_else(|| format!("extra attribute set {i}")),
+        }
+    }
+    /// shape class used in signatures
+    fn class(&self) -> String {
+        match self {
+            AttrSpec::Block(_) => "block".into(),
+            AttrSpec::Set(i) => attribute_sets().get(*i).map(|x| x.0.split('#').next().unwrap_or("").to_string()).unwrap_or_default(),
+            AttrSpec::Extra(i) => extra_sets().get(*i).map(|x| x.0.split('#').next().unwrap_or("").to_string()).unwrap_or_default(),
+        }
+    }
+}
+
+#[derive(Clone, Debug)]
+struct UpdCase {
+    fi: usize,
+    d: PairDesc,
+    reach: bool,
+    shape: Shape,
+    attr: AttrSpec,
+    nh: usize,
+    n: usize,
+}
+
+impl UpdCase {
+    fn name(&self) -> String {
+        format!(
+            "u:{}:{}:{}:{}:{}:{}:{}",
+            self.fi, self.d.name(), if self.reach { "r" } else { "u" }, self.shape.name(), self.attr.name(), self.nh, self.n
+        )
+    }
+    fn parse(s: &str) -> Option<UpdCase> {
+        let p: Vec<&str> = s.split(':').collect();
+        if p.len() != 8 || p[0] != "u" {
+            return None;
+        }
+        Some(UpdCase {
+            fi: p[1].parse().ok().filter(|i| *i < mkmsg::families().len())?,
+            d: PairDesc::parse(p[2])?,
+            reach: match p[3] { "r" => true, "u" => false, _ => return None },
+            shape: Shape::parse(p[4])?,
+            attr: AttrSpec::parse(p[5])?,
+            nh: p[6].parse().ok()?,
+            n: p[7].parse().ok()?,
+        })
+    }
+    fn family(&self) -> Family {
+        fam(self.fi)
+    }
+    /// legacy = RFC 4271 NLRI / withdrawn fields, mp = MP_REACH / MP_UNREACH
+    fn kind(&self) -> &'static str {
+        if self.family() == Family::IPV4 && !self.d.ext_nh() { "legacy" } else { "mp" }
+    }
+    fn op(&self) -> &'static str {
+        if self.reach { "reach" } else { "unreach" }
+    }
+}
+
+fn named_nonstack(f: Family) -> Vec<Nlri> {
+    mkmsg::nlris(f, NlriSize::All).into_iter().filter(|n| !mkmsg::nlri_has_label_stack(n)).collect()
+}
+
+/// The entries of a case.  For the bulk shapes the list for n is a prefix of the list for
+/// any larger n.  Err = the descriptor is not meaningful (machinery, not a finding).
+fn build_entries(f: Family, shape: Shape, n: usize, addpath: bool) -> Result<Vec<PathNlri>, String> {
+    let pid = |i: usize| if addpath { i as u32 + 1 } else { 0 };
+    let mut v = Vec::with_capacity(n);
+    match shape {
+        Shape::Small => v.extend((0..n).map(|i| PathNlri { path_id: pid(i), nlri: mkmsg::nlri_nth(f, i as u32, false) })),
+        Shape::Big => v.extend((0..n).map(|i| PathNlri { path_id: pid(i), nlri: mkmsg::nlri_nth(f, i as u32, true) })),
+        Shape::Mix(j) => v.extend((0..n).map(|i| PathNlri { path_id: pid(i), nlri: mkmsg::nlri_nth(f, i as u32, i >= j) })),
+        Shape::Dup => {
+            if !addpath {
+                return Err("shape d needs add-path".into());
             }
+            v.extend((0..n).map(|i| PathNlri { path_id: (i % 2) as u32 + 1, nlri: mkmsg::nlri_nth(f, (i / 2) as u32, true) }));
         }
-    }
-    if seen < usize::MAX / 4 && seen != n_entries && (n_entries > 0 || is_reach) {
-        return Err(("nlri-count".into(), format!("independent walk found {seen} NLRI in {} frame(s), {n_entries} were submitted", frames.len())));
-    }
-    // decode with the peer's codec
-    let mut out = Decoded { reach: vec![], unreach: vec![], nexthops: vec![], attrs: vec![], eor: vec![], others: 0, err_attrs: 0 };
-    for (i, f) in frames.iter().enumerate() {
-        let parsed = match catch(|| mkmsg::decode_frame(&mut rx, f)) {
-            Err(p) => return Err(("decode-panics".into(), format!("frame {i}: {p}; bytes={}", hex(f)))),
-            Ok(Err(n)) => return Err(("decode-rejects".into(), format!("frame {i}: {n}; bytes={}", hex(f)))),
-            Ok(Ok(m)) => m,
-        };
-        match parsed {
-            ParsedMessage::Update(ParsedUpdate::EndOfRib(f)) => out.eor.push(f),
-            ParsedMessage::Update(ParsedUpdate::Routes { reach, mp_reach, unreach, mp_unreach, attrs, error_attrs }) => {
-                out.err_attrs += error_attrs.len();
-                let mut any = false;
-                for r in reach.into_iter().chain(mp_reach) {
-                    if r.family != family {
-                        return Err(("wrong-family".into(), format!("decoded reach family {:?}", r.family)));
-                    }
-                    out.reach.extend(r.entries);
-                    out.nexthops.push(r.nexthop);
-                    any = true;
-                }
-                if any {
-                    out.attrs.push(attrs);
-                }
-                for u in unreach.into_iter().chain(mp_unreach) {
-                    if u.family != family {
-                        return Err(("wrong-family".into(), format!("decoded unreach family {:?}", u.family)));
-                    }
-                    out.unreach.extend(u.entries);
-                }
-            }
-            _ => out.others += 1,
+        Shape::MaxThenBig => {
+            let m = mkmsg::nlris(f, NlriSize::Max).remove(0);
+            v.extend((0..n).map(|i| PathNlri { path_id: pid(i), nlri: if i == 0 { m.clone() } else { mkmsg::nlri_nth(f, i as u32, true) } }));
         }
+        Shape::Named(i) => {
+            let (_, x) = mkmsg::nlris_named(f).get(i).cloned().ok_or("named value index")?;
+            v.push(PathNlri { path_id: pid(0), nlri: x });
+        }
+        Shape::CodeOnly(i) => {
+            let (_, x) = mkmsg::nlris_code_only(f).get(i).cloned().ok_or("code-only value index")?;
+            v.push(PathNlri { path_id: pid(0), nlri: x });
+        }
+        Shape::AllNamed => v.extend(named_nonstack(f).into_iter().enumerate().map(|(i, x)| PathNlri { path_id: pid(i), nlri: x })),
     }
-    Ok((frames, out))
+    Ok(v)
 }
 
-/// What a conforming receiver on a 4-octet-AS session holds after decoding `a`.
-fn expected_attrs(attrs: &[Attribute]) -> Vec<Attribute> {
+fn all_distinct(e: &[PathNlri]) -> bool {
+    let mut s: HashSet<&PathNlri> = HashSet::with_capacity(e.len());
+    e.iter().all(|x| s.insert(x))
+}
+
+// ---------------------------------------------------------------------------
+// independent sizing model (used only to steer the enumeration to the frame
+// boundaries and to decide whether an input can be encoded at all)
+// ---------------------------------------------------------------------------
+
+fn as_path_segments(body: &[u8]) -> Vec<(u8, Vec<u32>)> {
     let mut out = Vec::new();
-    for a in attrs {
-        if a.is_opaque() {
-            if a.flags() & 0x40 == 0 {
-                continue; // optional non-transitive unknown: discarded
+    let mut p = 0usize;
+    while p + 2 <= body.len() {
+        let (t, c) = (body[p], body[p + 1] as usize);
+        let mut v = Vec::with_capacity(c);
+        for i in 0..c {
+            let o = p + 2 + 4 * i;
+            if o + 4 > body.len() {
+                break;
             }
-            let body = a.binary().unwrap().clone();
-            let flags = if body.len() > 255 { a.flags() | 0x10 } else { a.flags() };
-            out.push(Attribute::new_opaque(a.code(), flags, body));
-        } else if a.code() == Attribute::AS4_PATH || a.code() == Attribute::AS4_AGGREGATOR {
-            continue;
-        } else {
-            out.push(a.clone());
+            v.push(u32::from_be_bytes([body[o], body[o + 1], body[o + 2], body[o + 3]]));
         }
+        out.push((t, v));
+        p += 2 + 4 * c;
     }
     out
 }
 
-/// One UPDATE case: returns violations (empty = round-trips).
-fn check_update(
-    case: &str,
-    family: Family,
-    d: &PairDesc,
-    entries: Vec<PathNlri>,
-    is_reach: bool,
-    nexthop: Option<Nexthop>,
-    attrs: &[Attribute],
-    shape_extra: &str,
-    check_nh: bool,
-) -> Vec<Violation> {
-    let op = if is_reach { "reach" } else { "unreach" };
-    let shape = format!("{}:{op}{shape_extra}", mkmsg::family_name(family));
-    let msg = if is_reach { mkmsg::reach(family, entries.clone(), nexthop, attrs) } else { mkmsg::unreach(family, entries.clone()) };
-    let (frames, dec) = match transfer(family, d, &msg, entries.len(), is_reach) {
-        Ok(x) => x,
-        Err((clause, detail)) => return vec![viol(&clause, shape, detail, case)],
-    };
-    let bytes = frames.first().map(|f| hex(f)).unwrap_or_default();
-    let mut vs = Vec::new();
-    if dec.err_attrs > 0 {
-        vs.push(viol("attr-rejected", shape.clone(), format!("receiver reported {} attribute error(s) on a valid UPDATE", dec.err_attrs), case));
+fn is_confed(t: u8) -> bool {
+    t == 3 || t == 4
+}
+
+fn enc_len(body: usize) -> usize {
+    body + if body > 255 { 4 } else { 3 }
+}
+
+/// Wire size of one attribute on a 4-byte or 2-byte-AS session (RFC 4271 §4.3, RFC 6793 §4.2.2).
+fn attr_session_len(a: &Attribute, two_byte: bool) -> usize {
+    if a.value().is_some() {
+        return if a.code() == Attribute::ORIGIN { 4 } else { 7 };
     }
-    let want: Vec<PathNlri> = if is_reach {
-        entries.clone()
+    let l = a.binary().map(|b| b.len()).unwrap_or(0);
+    if two_byte && !a.is_opaque() && a.code() == Attribute::AS_PATH {
+        let segs = as_path_segments(a.binary().unwrap());
+        let l2: usize = segs.iter().map(|(_, v)| 2 + 2 * v.len()).sum();
+        let wide = segs.iter().any(|(_, v)| v.iter().any(|x| *x > 65535));
+        let l4: usize = segs.iter().filter(|(t, _)| !is_confed(*t)).map(|(_, v)| 2 + 4 * v.len()).sum();
+        return enc_len(l2) + if wide { enc_len(l4) } else { 0 };
+    }
+    if two_byte && !a.is_opaque() && a.code() == Attribute::AGGREGATOR && l == 8 {
+        let b = a.binary().unwrap();
+        let wide = u32::from_be_bytes([b[0], b[1], b[2], b[3]]) > 65535;
+        return enc_len(6) + if wide { enc_len(8) } else { 0 };
+    }
+    if a.flags() & 0x10 != 0 { l + 4 } else { enc_len(l) }
+}
+
+fn attrs_session_len(attrs: &[Attribute], two_byte: bool) -> usize {
+    attrs.iter().map(|a| attr_session_len(a, two_byte)).sum()
+}
+
+/// Where the NLRI list starts in a frame of this (family, pair, op) with the base
+/// attributes, and how many bytes follow the list: read off a one-entry encoding with the
+/// independent frame walker.
+#[derive(Clone, Copy, Debug)]
+struct Probe {
+    head: usize,
+    trail: usize,
+}
+
+fn probe(f: Family, d: &PairDesc, reach: bool, nh: Option<Nexthop>) -> Option<Probe> {
+    let (mut tx, _) = mkmsg::pair_from_desc(f, d);
+    let e = build_entries(f, Shape::Small, 1, d.tx_addpath()).ok()?;
+    let msg = if reach { mkmsg::reach(f, e, nh, &mkmsg::base_attrs()) } else { mkmsg::unreach(f, e) };
+    let frames = catch(|| mkmsg::encode(&mut tx, &msg)).ok()?.ok()?;
+    if frames.len() != 1 {
+        return None;
+    }
+    let fr = wire::read_frame(&frames[0], 65535).ok()?;
+    let wire::Body::Update(u) = &fr.body else { return None };
+    let sp = if reach {
+        u.mp_reach.as_ref().map(|m| m.nlri).unwrap_or(u.nlri)
     } else {
-        entries.iter().map(|e| PathNlri { path_id: e.path_id, nlri: mkmsg::unreach_canonical(&e.nlri) }).collect()
+        u.mp_unreach.as_ref().map(|m| m.nlri).unwrap_or(u.withdrawn)
     };
-    let got = if is_reach { &dec.reach } else { &dec.unreach };
-    let other = if is_reach { &dec.unreach } else { &dec.reach };
-    if multiset(&want) != multiset(got) || !other.is_empty() {
-        vs.push(viol("nlri-differs", shape.clone(), format!("sent {:?}; received {op} {:?}, opposite list {:?}", want, got, other), case));
+    if sp.len == 0 {
+        return None;
     }
-    if is_reach {
-        for nh in &dec.nexthops {
-            if check_nh && *nh != nexthop {
-                let nhs = match (nexthop, nh) {
-                    (Some(a), Some(b)) => format!(":{}->{}", nh_class(&a), nh_class(b)),
-                    (Some(a), None) => format!(":{}->none", nh_class(&a)),
-                    (None, Some(b)) => format!(":none->{}", nh_class(b)),
-                    _ => String::new(),
-                };
-                vs.push(viol("nexthop-differs", format!("{}:{op}{nhs}", mkmsg::family_name(family)), format!("sent next hop {nexthop:?}, received {nh:?}; bytes={bytes}"), case));
-                break;
-            }
-        }
-        let want_attrs = expected_attrs(attrs);
-        for a in &dec.attrs {
-            if mkmsg::attr_keys(a) != mkmsg::attr_keys(&want_attrs) {
-                vs.push(viol("attrs-differ", shape.clone(), format!("sent {:?} (expected at receiver {:?}), received {:?}", attrs, want_attrs, a), case));
-                break;
-            }
+    Some(Probe { head: sp.off, trail: fr.len - sp.end() })
+}
+
+/// (count, size) runs of the entry sizes of a bulk shape
+fn size_runs(f: Family, shape: Shape, addpath: bool) -> Vec<(usize, usize)> {
+    let ap = if addpath { 4 } else { 0 };
+    let s = mkmsg::nlri_wire_len(&mkmsg::nlri_nth(f, 1, false)) + ap;
+    let b = mkmsg::nlri_wire_len(&mkmsg::nlri_nth(f, 1, true)) + ap;
+    match shape {
+        Shape::Small => vec![(usize::MAX, s)],
+        Shape::Big | Shape::Dup => vec![(usize::MAX, b)],
+        Shape::Mix(j) => vec![(j, s), (usize::MAX, b)],
+        Shape::MaxThenBig => vec![(1, mkmsg::nlri_wire_len(&mkmsg::nlris(f, NlriSize::Max)[0]) + ap), (usize::MAX, b)],
+        _ => vec![],
+    }
+}
+
+/// how many leading entries fit into `avail` bytes
+fn fit(runs: &[(usize, usize)], mut avail: usize) -> usize {
+    let mut k = 0usize;
+    for (cnt, sz) in runs {
+        let take = (avail / sz.max(&1)).min(*cnt);
+        k += take;
+        avail -= take * sz;
+        if take < *cnt {
+            break;
         }
     }
-    vs
+    k
+}
+
+// ---------------------------------------------------------------------------
+// expected values at the receiver
+// ---------------------------------------------------------------------------
+
+/// What a conforming receiver holds after decoding `attrs`.  The bool says that
+/// the AS_PATH is unconstrained (RFC 6793 gives no guarantee for it).
+fn expected_attrs(attrs: &[Attribute], two_byte: bool) -> (Vec<Attribute>, bool) {
+    let mut out = Vec::new();
+    let mut free = false;
+    for a in attrs {
+        if a.is_opaque() {
+            if a.flags() & 0x40 == 0 {
+                continue; // RFC 4271 §5: unrecognised optional non-transitive: quietly ignored
+            }
+            out.push(a.clone());
+        } else if a.code() == Attribute::AS4_PATH || a.code() == Attribute::AS4_AGGREGATOR {
+            continue;
+        } else {
+            if two_byte && a.code() == Attribute::AS_PATH {
+                let segs = as_path_segments(a.binary().unwrap());
+                let wide = segs.iter().any(|(_, v)| v.iter().any(|x| *x > 65535));
+                let wide_in_confed = segs.iter().any(|(t, v)| is_confed(*t) && v.iter().any(|x| *x > 65535));
+                let first_plain = segs.iter().position(|(t, _)| !is_confed(*t)).unwrap_or(segs.len());
+                let confed_not_leading = segs.iter().skip(first_plain).any(|(t, _)| is_confed(*t));
+                if wide && (wide_in_confed || confed_not_leading) {
+                    free = true;
+                }
+            }
+            out.push(a.clone());
+        }
+    }
+    (out, free)
+}
+
+type Key = (u8, u8, Option<u32>, Option<Vec<u8>>, bool);
+
+fn sorted_keys(v: &[Attribute], skip_as_path: bool) -> Vec<Key> {
+    let mut k: Vec<Key> = v.iter().filter(|a| !(skip_as_path && a.code() == Attribute::AS_PATH && !a.is_opaque())).map(mkmsg::attr_key).collect();
+    k.sort();
+    k
 }
 
 fn nh_class(n: &Nexthop) -> &'static str {
@@ -219,130 +452,536 @@ fn nh_class(n: &Nexthop) -> &'static str {
     }
 }
 
-fn open_eq(a: &rustybgp_packet::bgp::Open, b: &rustybgp_packet::bgp::Open) -> bool {
-    a.as_number == b.as_number && a.holdtime == b.holdtime && a.router_id == b.router_id && a.capability == b.capability
+// ---------------------------------------------------------------------------
+// encode / split / decode
+// ---------------------------------------------------------------------------
+
+enum Enc {
+    Panic(String),
+    Ret(Result<usize, String>, Vec<u8>),
 }
 
-/// Non-UPDATE message: encode, walk, decode, compare.
-fn check_simple(case: &str, kind: &str, msg: &Message) -> Vec<Violation> {
-    let mut tx = PeerCodec::new();
-    let mut rx = PeerCodec::new();
-    let shape = kind.to_string();
-    let frames = match catch(|| mkmsg::encode(&mut tx, msg)) {
-        Err(p) => return vec![viol("encode-panics", shape, p, case)],
-        Ok(Err(e)) => return vec![viol("encode-fails", shape, e, case)],
-        Ok(Ok(f)) => f,
-    };
-    if frames.len() != 1 {
-        return vec![viol("frame-count", shape, format!("{} frames for one message", frames.len()), case)];
+fn encode_raw(tx: &mut PeerCodec, msg: &Message) -> Enc {
+    let mut buf: Vec<u8> = Vec::new();
+    match catch(|| tx.encode_to(msg, &mut buf)) {
+        Err(p) => Enc::Panic(p),
+        Ok(r) => Enc::Ret(r.map_err(|e| e.to_string()), buf),
     }
-    let f = &frames[0];
-    let fr = match wire::read_frame(f, 4096) {
-        Ok(fr) => fr,
-        Err(e) => return vec![viol("frame-malformed", shape, format!("{e}; bytes={}", hex(f)), case)],
-    };
-    let parsed = match catch(|| mkmsg::decode_frame(&mut rx, f)) {
-        Err(p) => return vec![viol("decode-panics", shape, p, case)],
-        Ok(Err(n)) => return vec![viol("decode-rejects", shape, format!("{n}; bytes={}", hex(f)), case)],
-        Ok(Ok(m)) => m,
-    };
-    let same = match (msg, &parsed, &fr.body) {
-        (Message::Open(a), ParsedMessage::Open(b), wire::Body::Open(w)) => {
-            // wire view: capabilities seen by the independent reader == submitted
-            open_eq(a, b) && w.caps.len() == a.capability.len() && w.version == 4 && w.hold == a.holdtime.seconds() && w.id == a.router_id
+}
+
+fn plausible_header(buf: &[u8], pos: usize) -> bool {
+    pos == buf.len()
+        || (pos + 19 <= buf.len() && buf[pos..pos + 16].iter().all(|b| *b == 0xff) && (1..=5).contains(&buf[pos + 18]))
+}
+
+/// Split the sender's buffer into frames.  A frame longer than 65535 bytes has a wrapped
+/// length field: it is recognised when header+65536 leads to a frame boundary and header
+/// does not.  Returns (offset, true length, wrapped).
+fn split_tolerant(buf: &[u8]) -> Result<Vec<(usize, usize, bool)>, String> {
+    let mut out = Vec::new();
+    let mut pos = 0usize;
+    while pos < buf.len() {
+        if buf.len() - pos < 19 {
+            return Err(format!("{} trailing byte(s) at offset {pos}: shorter than a header", buf.len() - pos));
         }
-        (Message::Notification(a), ParsedMessage::Notification(b), wire::Body::Notification { code, subcode, data }) => {
-            a == b && *code == a.notification_code() && *subcode == a.notification_subcode() && data.of(f) == a.notification_data()
+        if !buf[pos..pos + 16].iter().all(|b| *b == 0xff) {
+            return Err(format!("no marker at offset {pos} (stream desynchronised after {} frame(s))", out.len()));
         }
-        (Message::Keepalive, ParsedMessage::Keepalive, wire::Body::Keepalive) => true,
-        (Message::RouteRefresh { family: a }, ParsedMessage::RouteRefresh { family: b }, wire::Body::RouteRefresh { afi, subtype, safi }) => {
-            a == b && *afi == a.afi() && *safi == a.safi() && *subtype == 0
+        let h = u16::from_be_bytes([buf[pos + 16], buf[pos + 17]]) as usize;
+        let ok = |l: usize| l >= 19 && pos + l <= buf.len() && plausible_header(buf, pos + l);
+        if ok(h) {
+            out.push((pos, h, false));
+            pos += h;
+        } else if ok(h + 65536) {
+            out.push((pos, h + 65536, true));
+            pos += h + 65536;
+        } else {
+            return Err(format!("frame {} at offset {pos}: length field {h} does not lead to a frame boundary ({} byte(s) follow)", out.len(), buf.len() - pos));
         }
-        _ => false,
-    };
-    if same {
-        vec![]
+    }
+    Ok(out)
+}
+
+/// which length field a wire.rs error message is about (signature class)
+fn field_of(err: &str) -> &'static str {
+    if err.starts_with("header") {
+        "header-length"
+    } else if err.contains("withdrawn routes length") {
+        "withdrawn-length"
+    } else if err.contains("total path attribute length") {
+        "total-attribute-length"
+    } else if err.starts_with("path attributes") {
+        "attribute-length"
+    } else if err.starts_with("MP_REACH") || err.starts_with("MP_UNREACH") {
+        "mp-attribute"
+    } else if err.starts_with("NLRI") {
+        "nlri"
+    } else if err.starts_with("OPEN") {
+        "open-parameters"
     } else {
-        vec![viol("value-differs", shape, format!("decoded value or independent wire view differs from the submitted message; bytes={}", hex(f)), case)]
+        "other"
     }
 }
 
-// ---------------------------------------------------------------------------
-// case descriptors:  nlri:<fam>:<idx>:<r|u>   all:<fam>:<r|u>   nh:<fam>:<idx>
-//                    attr:<fam>:<set idx>     pair:<fam>:<pair name>:<min|max>:<r|u>
-//                    open:<idx>  notif:<idx>  rr:<idx>  keepalive  codeonly:<fam>:<idx>:<r|u>
-// ---------------------------------------------------------------------------
+/// Canonical view of a decoded message; `==` is the strict comparison of the fixed-point clause.
+#[derive(Clone, Debug, PartialEq)]
+enum View {
+    Open { asn: u32, hold: u16, id: u32, caps: Vec<Capability> },
+    Routes { reach: Option<(Family, Vec<PathNlri>, Option<Nexthop>)>, unreach: Option<(Family, Vec<PathNlri>)>, attrs: Vec<Attribute>, errs: usize, both: bool },
+    Eor(Family),
+    Notification(Notification),
+    Keepalive,
+    RouteRefresh(Family),
+}
 
-fn eval_case(case: &str) -> Result<Vec<Violation>, String> {
-    let p: Vec<&str> = case.split(':').collect();
-    let num = |i: usize| -> Result<usize, String> { p.get(i).and_then(|s| s.parse().ok()).ok_or(format!("bad case {case}")) };
-    let ru = |i: usize| -> Result<bool, String> {
-        match p.get(i) {
-            Some(&"r") => Ok(true),
-            Some(&"u") => Ok(false),
-            _ => Err(format!("bad case {case}")),
-        }
-    };
-    let dflt = PairDesc::DEFAULT;
-    match p[0] {
-        "nlri" | "codeonly" => {
-            let f = fam(num(1)?);
-            let list = if p[0] == "nlri" { mkmsg::nlris_named(f) } else { mkmsg::nlris_code_only(f) };
-            let (name, n) = list.get(num(2)?).ok_or("index")?.clone();
-            let _ = name;
-            let extra = if mkmsg::nlri_has_label_stack(&n) { ":label-stack" } else { "" };
-            let extra = if p[0] == "codeonly" { ":code-only-form".to_string() } else { extra.to_string() };
-            Ok(check_update(case, f, &dflt, vec![PathNlri::new(n)], ru(3)?, mkmsg::default_nexthop(f), &mkmsg::base_attrs(), &extra, false))
-        }
-        "all" => {
-            let f = fam(num(1)?);
-            let ns: Vec<_> = mkmsg::nlris(f, NlriSize::All).into_iter().filter(|n| !mkmsg::nlri_has_label_stack(n)).collect();
-            Ok(check_update(case, f, &dflt, mkmsg::path_entries(&ns, false), ru(2)?, mkmsg::default_nexthop(f), &mkmsg::base_attrs(), ":all-values", false))
-        }
-        "nh" => {
-            let f = fam(num(1)?);
-            let c = mkmsg::nexthops(f).get(num(2)?).ok_or("index")?.clone();
-            let mut d = dflt;
-            d.l_ext_nh = c.needs_ext_nh;
-            d.r_ext_nh = c.needs_ext_nh;
-            let n = mkmsg::nlris(f, NlriSize::Min).remove(0);
-            Ok(check_update(case, f, &d, vec![PathNlri::new(n)], true, c.nexthop, &mkmsg::base_attrs(), "", true))
-        }
-        "attr" => {
-            let f = fam(num(1)?);
-            let (name, set) = mkmsg::attribute_sets().get(num(2)?).ok_or("index")?.clone();
-            let kind = name.split('#').next().unwrap_or("").to_string();
-            let n = mkmsg::nlris(f, NlriSize::Max).remove(0);
-            Ok(check_update(case, f, &dflt, vec![PathNlri::new(n)], true, mkmsg::default_nexthop(f), &set, &format!(":attr-{kind}"), false))
-        }
-        "pair" => {
-            let f = fam(num(1)?);
-            let d = PairDesc::parse(p.get(2).ok_or("pair")?).ok_or("pair name")?;
-            let size = if p.get(3) == Some(&"max") { NlriSize::Max } else { NlriSize::Min };
-            let n = mkmsg::nlris(f, size).remove(0);
-            let e = mkmsg::path_entries(&[n], d.tx_addpath());
-            let nh = mkmsg::default_nexthop(f);
-            // base attributes only: no wide AS, so 2-byte sessions need no reconciliation
-            Ok(check_update(case, f, &d, e, ru(4)?, nh, &mkmsg::base_attrs(), &format!(":{}", pair_class(&d)), true))
-        }
-        "open" => Ok(check_simple(case, "open", &mkmsg::opens().get(num(1)?).ok_or("index")?.1)),
-        "notif" => Ok(check_simple(case, "notification", &mkmsg::notifications().get(num(1)?).ok_or("index")?.1)),
-        "rr" => Ok(check_simple(case, "route-refresh", &mkmsg::route_refreshes().get(num(1)?).ok_or("index")?.1)),
-        "keepalive" => Ok(check_simple(case, "keepalive", &mkmsg::keepalive())),
-        "eor" => {
-            let f = fam(num(1)?);
-            let (_, dec) = match transfer(f, &dflt, &Message::eor(f), 0, false) {
-                Ok(x) => x,
-                Err((c, d)) => return Ok(vec![viol(&c, format!("{}:eor", mkmsg::family_name(f)), d, case)]),
-            };
-            if dec.eor == vec![f] && dec.reach.is_empty() && dec.unreach.is_empty() {
-                Ok(vec![])
-            } else {
-                Ok(vec![viol("eor-differs", format!("{}:eor", mkmsg::family_name(f)), format!("decoded EoR list {:?}", dec.eor), case)])
+fn view_of(m: ParsedMessage) -> View {
+    match m {
+        ParsedMessage::Open(o) => View::Open { asn: o.as_number, hold: o.holdtime.seconds(), id: o.router_id, caps: o.capability },
+        ParsedMessage::Update(ParsedUpdate::EndOfRib(f)) => View::Eor(f),
+        ParsedMessage::Update(ParsedUpdate::Routes { reach, mp_reach, unreach, mp_unreach, attrs, error_attrs }) => {
+            let both = (reach.is_some() && mp_reach.is_some()) || (unreach.is_some() && mp_unreach.is_some());
+            View::Routes {
+                reach: reach.or(mp_reach).map(|r| (r.family, r.entries, r.nexthop)),
+                unreach: unreach.or(mp_unreach).map(|u| (u.family, u.entries)),
+                attrs,
+                errs: error_attrs.len(),
+                both,
             }
         }
-        _ => Err(format!("unknown case {case}")),
+        ParsedMessage::Notification(n) => View::Notification(n),
+        ParsedMessage::Keepalive => View::Keepalive,
+        ParsedMessage::RouteRefresh { family } => View::RouteRefresh(family),
     }
+}
+
+/// Feed the byte stream to the peer exactly as the session loop does.
+fn decode_stream(rx: &mut PeerCodec, buf: &[u8]) -> Result<Vec<View>, (usize, String)> {
+    let mut b = BytesMut::from(buf);
+    let mut out = Vec::new();
+    while !b.is_empty() {
+        let before = b.len();
+        match catch(|| rx.try_parse(&mut b)) {
+            Err(p) => return Err((out.len(), format!("panic: {p}"))),
+            Ok(Err(n)) => return Err((out.len(), format!("NOTIFICATION {}/{} ({n})", n.notification_code(), n.notification_subcode()))),
+            Ok(Ok(None)) => return Err((out.len(), format!("{} byte(s) left that the peer takes for an incomplete frame", b.len()))),
+            Ok(Ok(Some(m))) => {
+                if b.len() >= before {
+                    return Err((out.len(), "peer returned a message without consuming bytes".into()));
+                }
+                out.push(view_of(m));
+            }
+        }
+    }
+    Ok(out)
+}
+
+/// The Message that carries the value of a decoded frame (for the fixed-point clause).
+fn message_of(v: &View) -> Option<Message> {
+    Some(match v {
+        View::Open { asn, hold, id, caps } => Message::Open(Open { as_number: *asn, holdtime: HoldTime::new(*hold)?, router_id: *id, capability: caps.clone() }),
+        View::Eor(f) => Message::eor(*f),
+        View::Notification(n) => Message::Notification(n.clone()),
+        View::Keepalive => Message::Keepalive,
+        View::RouteRefresh(f) => Message::RouteRefresh { family: *f },
+        View::Routes { reach: Some((f, e, nh)), unreach: None, attrs, errs: 0, both: false } => {
+            Message::Update(Update::Reach { family: *f, entries: e.clone(), nexthop: *nh, attr: Arc::new(attrs.clone()) })
+        }
+        View::Routes { reach: None, unreach: Some((f, e)), errs: 0, both: false, .. } => Message::Update(Update::Unreach { family: *f, entries: e.clone() }),
+        _ => return None,
+    })
+}
+
+/// decode(encode(x)) for a decoded value x; Ok(None) = x is not re-encodable as one Message
+fn reencode(f: Family, d: &PairDesc, x: &View) -> Result<Option<View>, String> {
+    let Some(msg) = message_of(x) else { return Ok(None) };
+    let (mut tx, mut rx) = mkmsg::pair_from_desc(f, d);
+    let buf = match encode_raw(&mut tx, &msg) {
+        Enc::Panic(p) => return Err(format!("encoder panics on the decoded value: {p}")),
+        Enc::Ret(Err(e), _) => return Err(format!("encoder fails on the decoded value: {e}")),
+        Enc::Ret(Ok(_), b) => b,
+    };
+    let vs = decode_stream(&mut rx, &buf).map_err(|(i, e)| format!("re-encoded frame {i}: {e}"))?;
+    // merge the frames of a split update back into one value
+    let mut it = vs.into_iter();
+    let Some(mut acc) = it.next() else { return Err("re-encoding produced no frame".into()) };
+    for v in it {
+        match (&mut acc, v) {
+            (View::Routes { reach: Some((fa, ea, na)), unreach: None, attrs: aa, .. }, View::Routes { reach: Some((fb, eb, nb)), unreach: None, attrs: ab, errs: 0, .. })
+                if *fa == fb && *na == nb && *aa == ab =>
+            {
+                ea.extend(eb)
+            }
+            (View::Routes { reach: None, unreach: Some((fa, ea)), .. }, View::Routes { reach: None, unreach: Some((fb, eb)), errs: 0, .. }) if *fa == fb => ea.extend(eb),
+            (_, o) => return Err(format!("re-encoding produced frames that do not merge: {}", trunc(&format!("{o:?}"), 200))),
+        }
+    }
+    Ok(Some(acc))
+}
+
+// ---------------------------------------------------------------------------
+// UPDATE oracle
+// ---------------------------------------------------------------------------
+
+#[derive(Default)]
+struct EvalOut {
+    viols: Vec<Violation>,
+    frames: usize,
+    first_entries: Option<usize>,
+    max_frame: usize,
+    hash: u64,
+    /// outcome class for the non-vacuity tally
+    class: String,
+}
+
+struct Sizing {
+    /// bytes of a frame that are not NLRI (for this attribute block), None if the probe failed
+    overhead: Option<usize>,
+    /// largest entry of the case incl. path id
+    max_entry: usize,
+}
+
+fn msg_entries(m: &Message) -> &[PathNlri] {
+    match m {
+        Message::Update(Update::Reach { entries, .. }) | Message::Update(Update::Unreach { entries, .. }) => entries,
+        _ => &[],
+    }
+}
+
+fn take_entries(m: Message) -> Vec<PathNlri> {
+    match m {
+        Message::Update(Update::Reach { entries, .. }) | Message::Update(Update::Unreach { entries, .. }) => entries,
+        _ => Vec::new(),
+    }
+}
+
+fn same_entry(reach: bool, sent: &PathNlri, got: &PathNlri) -> bool {
+    sent == got || (!reach && sent.path_id == got.path_id && mkmsg::unreach_canonical(&sent.nlri) == got.nlri)
+}
+
+fn make_msg(c: &UpdCase, entries: Vec<PathNlri>, attrs: &Arc<Vec<Attribute>>, nexthop: Option<Nexthop>) -> Message {
+    if c.reach {
+        Message::Update(Update::Reach { family: c.family(), entries, nexthop, attr: attrs.clone() })
+    } else {
+        Message::Update(Update::Unreach { family: c.family(), entries })
+    }
+}
+
+fn eval_update(c: &UpdCase, msg: &Message, attrs: &[Attribute], nexthop: Option<Nexthop>, sz: &Sizing) -> EvalOut {
+    let entries = msg_entries(msg);
+    let case = c.name();
+    let f = c.family();
+    let fname = mkmsg::family_name(f);
+    let op = c.op();
+    let n = entries.len();
+    let max = c.d.max_len();
+    let mut out = EvalOut::default();
+    let extra = match c.shape {
+        Shape::CodeOnly(_) => ":code-only-form",
+        _ if entries.iter().any(|e| mkmsg::nlri_has_label_stack(&e.nlri)) => ":label-stack",
+        _ => "",
+    };
+    let encodable = sz.overhead.map(|o| n == 0 || o + sz.max_entry <= max);
+    let (mut tx, mut rx) = mkmsg::pair_from_desc(f, &c.d);
+
+    // ---- encoder returns
+    let (ret, buf) = match encode_raw(&mut tx, msg) {
+        Enc::Panic(p) => {
+            let cls = if p.contains("overflow") { "arith-overflow" } else if p.contains("range") || p.contains("index") { "index" } else { "other" };
+            out.viols.push(viol("encode-panics", format!("{op}-{}:{cls}", c.kind()), format!("encode_to panics: {p}"), &case));
+            out.class = "panic".into();
+            return out;
+        }
+        Enc::Ret(r, b) => (r, b),
+    };
+    out.hash = hash64(&buf);
+    if let Err(e) = &ret {
+        if encodable != Some(false) {
+            out.viols.push(viol("encode-fails", format!("{fname}:{op}"), format!("encode_to returns Err({e}) for an input that can be encoded ({n} entries, largest {} bytes, {:?} bytes of overhead, limit {max})", sz.max_entry, sz.overhead), &case));
+            out.class = "err".into();
+            return out;
+        }
+    }
+
+    // ---- framing
+    let spans = match split_tolerant(&buf) {
+        Ok(s) => s,
+        Err(e) => {
+            out.viols.push(viol("length-field-inconsistent", "header-length".into(), format!("the buffer of {} bytes cannot be split into frames: {e}", buf.len()), &case));
+            out.class = "desync".into();
+            return out;
+        }
+    };
+    out.frames = spans.len();
+    let walker = wire::nlri_kind(f.afi(), f.safi());
+    let mut walked: Option<usize> = Some(0);
+    let mut per_frame: Vec<Option<usize>> = Vec::new();
+    for (i, (off, len, wrapped)) in spans.iter().enumerate() {
+        out.max_frame = out.max_frame.max(*len);
+        let fb = &buf[*off..*off + *len];
+        if *wrapped {
+            out.viols.push(viol("frame-too-long", format!("{fname}:{op}"), format!("frame {i} of {} is {len} bytes long (limit {max}); its 16-bit length field wrapped to {} so the peer loses framing", spans.len(), len - 65536), &case));
+            out.class = "too-long".into();
+            return out;
+        }
+        let fr = match wire::read_frame(fb, 65535) {
+            Ok(fr) => fr,
+            Err(e) => {
+                out.viols.push(viol("length-field-inconsistent", field_of(&e).into(), format!("frame {i} of {}: {e}; frame={}", spans.len(), trunc(&hex(fb), 400)), &case));
+                out.class = "malformed".into();
+                return out;
+            }
+        };
+        let wire::Body::Update(u) = &fr.body else {
+            out.viols.push(viol("length-field-inconsistent", "message-type".into(), format!("frame {i}: type {} instead of UPDATE", fr.msg_type), &case));
+            return out;
+        };
+        // independent NLRI walk (families with a walker): count and exact consumption
+        let mut cnt: Option<usize> = Some(0);
+        let o = wire::NlriOpts::reach(c.d.tx_addpath());
+        let mut lists: Vec<(Option<wire::NlriKind>, wire::Span)> = vec![(Some(wire::NlriKind::Ipv4), u.withdrawn), (Some(wire::NlriKind::Ipv4), u.nlri)];
+        for (afi, safi, sp) in u.mp_reach.iter().map(|m| (m.afi, m.safi, m.nlri)).chain(u.mp_unreach.iter().map(|m| (m.afi, m.safi, m.nlri))) {
+            if (afi, safi) != (f.afi(), f.safi()) {
+                out.viols.push(viol("length-field-inconsistent", "mp-family".into(), format!("frame {i}: MP attribute for {afi}/{safi}, expected {}/{}", f.afi(), f.safi()), &case));
+                return out;
+            }
+            lists.push((walker, sp));
+        }
+        for (k, sp) in lists {
+            if sp.len == 0 {
+                continue;
+            }
+            match k {
+                None => cnt = None,
+                Some(k) => match wire::walk_nlri(k, o, fb, sp) {
+                    Ok(v) => cnt = cnt.map(|c| c + v.len()),
+                    Err(e) => {
+                        out.viols.push(viol("length-field-inconsistent", format!("nlri:{fname}{extra}"), format!("frame {i}: {e}; frame={}", trunc(&hex(fb), 400)), &case));
+                        out.class = "malformed".into();
+                        return out;
+                    }
+                },
+            }
+        }
+        let empty = u.withdrawn.len == 0 && u.nlri.len == 0 && u.mp_reach.as_ref().is_none_or(|m| m.nlri.len == 0) && u.mp_unreach.as_ref().is_none_or(|m| m.nlri.len == 0);
+        per_frame.push(if empty { Some(0) } else { cnt });
+        walked = match (walked, cnt) {
+            (Some(a), Some(b)) => Some(a + b),
+            _ => None,
+        };
+        if *len > max {
+            let shape = if empty && n > 0 { format!("attrs-alone:{op}-{}", c.kind()) } else { format!("{fname}:{op}") };
+            out.viols.push(viol("frame-too-long", shape, format!("frame {i} of {} is {len} bytes long, the negotiated maximum is {max} ({} entries submitted, {} in this frame)", spans.len(), n, per_frame[i].map(|x| x.to_string()).unwrap_or("?".into())), &case));
+            out.class = "too-long".into();
+            return out;
+        }
+    }
+    if let Ok(cnt) = &ret {
+        if *cnt != spans.len() {
+            out.viols.push(viol("frame-count", op.into(), format!("encode_to returned Ok({cnt}) but wrote {} frame(s)", spans.len()), &case));
+            out.class = "count".into();
+            return out;
+        }
+    }
+
+    // ---- the peer decodes
+    let views = match decode_stream(&mut rx, &buf) {
+        Ok(v) => v,
+        Err((i, e)) => {
+            let clause = if e.starts_with("panic") { "decode-panics" } else { "decode-rejects" };
+            let fb = spans.get(i).map(|(o, l, _)| hex(&buf[*o..*o + *l])).unwrap_or_default();
+            out.viols.push(viol(clause, format!("{fname}:{op}{extra}"), format!("frame {i} of {}: {e}; bytes={}", spans.len(), trunc(&fb, 400)), &case));
+            out.class = "rejected".into();
+            return out;
+        }
+    };
+    if views.len() != spans.len() {
+        out.viols.push(viol("frame-count", format!("{op}:peer"), format!("the peer found {} message(s) in {} frame(s)", views.len(), spans.len()), &case));
+        return out;
+    }
+    let mut delivered = 0usize; // entries matched in order so far
+    let mut in_order = true;
+    let mut opposite = 0usize;
+    let mut frame_entries: Vec<usize> = Vec::new();
+    let mut nhs: Vec<Option<Nexthop>> = Vec::new();
+    let mut rattrs: Vec<&Vec<Attribute>> = Vec::new();
+    let mut errs = 0usize;
+    for v in &views {
+        match v {
+            View::Routes { reach, unreach, attrs, errs: e, .. } => {
+                errs += e;
+                let (mine, other): (Option<(&Family, &Vec<PathNlri>)>, Option<(&Family, &Vec<PathNlri>)>) = if c.reach {
+                    (reach.as_ref().map(|r| (&r.0, &r.1)), unreach.as_ref().map(|u| (&u.0, &u.1)))
+                } else {
+                    (unreach.as_ref().map(|u| (&u.0, &u.1)), reach.as_ref().map(|r| (&r.0, &r.1)))
+                };
+                opposite += other.map(|o| o.1.len()).unwrap_or(0);
+                match mine {
+                    Some((ff, e)) => {
+                        if *ff != f {
+                            out.viols.push(viol("wrong-family", format!("{fname}:{op}"), format!("decoded {op} for family {ff:?}"), &case));
+                            return out;
+                        }
+                        frame_entries.push(e.len());
+                        for x in e.iter() {
+                            if in_order && delivered < n && same_entry(c.reach, &entries[delivered], x) {
+                                delivered += 1;
+                            } else {
+                                in_order = false;
+                            }
+                        }
+                        if c.reach {
+                            nhs.push(reach.as_ref().unwrap().2);
+                            rattrs.push(attrs);
+                        }
+                    }
+                    None => frame_entries.push(0),
+                }
+            }
+            View::Eor(_) if n == 0 => frame_entries.push(0),
+            o => {
+                out.viols.push(viol("wrong-message", format!("{fname}:{op}"), format!("the peer decoded {}", trunc(&format!("{o:?}"), 200)), &case));
+                return out;
+            }
+        }
+    }
+    out.first_entries = frame_entries.first().copied();
+    if n == 0 {
+        out.class = "zero-entries".into();
+        return out; // never built by the daemon: framing clauses only
+    }
+
+    // ---- no drop, no duplicate
+    let n_got: usize = frame_entries.iter().sum();
+    let walked_short = walked.is_some_and(|w| w != n_got);
+    if !in_order || delivered != n || opposite > 0 || walked_short {
+        let want: Vec<PathNlri> = if c.reach { entries.to_vec() } else { entries.iter().map(|e| PathNlri { path_id: e.path_id, nlri: mkmsg::unreach_canonical(&e.nlri) }).collect() };
+        let mut got: Vec<PathNlri> = Vec::with_capacity(n_got);
+        for v in &views {
+            if let View::Routes { reach, unreach, .. } = v {
+                if let Some(e) = if c.reach { reach.as_ref().map(|r| &r.1) } else { unreach.as_ref().map(|u| &u.1) } {
+                    got.extend(e.iter().cloned());
+                }
+            }
+        }
+        let mut cnt: HashMap<&PathNlri, i64> = HashMap::new();
+        for e in &want {
+            *cnt.entry(e).or_default() += 1;
+        }
+        for e in &got {
+            *cnt.entry(e).or_default() -= 1;
+        }
+        let missing: i64 = cnt.values().filter(|v| **v > 0).sum();
+        let surplus: i64 = -cnt.values().filter(|v| **v < 0).sum::<i64>();
+        let has_empty = frame_entries.iter().any(|x| *x == 0);
+        if ret.is_ok() && missing > 0 {
+            let cause = if encodable == Some(false) {
+                "attributes-leave-no-room-for-one-entry"
+            } else if has_empty {
+                "frame-without-nlri-ends-the-split"
+            } else {
+                "other"
+            };
+            let first_missing = want.iter().find(|e| cnt.get(e).is_some_and(|v| *v > 0));
+            out.viols.push(viol(
+                "entries-dropped",
+                format!("{op}-{}:{cause}", c.kind()),
+                format!("encode_to returned Ok({}) but {missing} of {n} entries never reach the peer ({} frame(s) with entry counts {:?}; attribute block {} bytes, overhead {:?}, largest entry {} bytes, limit {max}); first missing: {:?}",
+                    spans.len(), spans.len(), trunc(&format!("{frame_entries:?}"), 120), attrs_session_len(attrs, c.d.two_byte_as()), sz.overhead, sz.max_entry, first_missing),
+                &case,
+            ));
+            out.class = "dropped".into();
+            return out;
+        }
+        if surplus > 0 || opposite > 0 {
+            out.viols.push(viol("entries-duplicated", format!("{fname}:{op}{extra}"), format!("{surplus} entries delivered that were not submitted / delivered twice, {opposite} in the opposite list; sent {} got {}", trunc(&format!("{want:?}"), 300), trunc(&format!("{got:?}"), 300)), &case));
+            out.class = "duplicated".into();
+            return out;
+        }
+        if walked_short && missing == 0 {
+            out.viols.push(viol("length-field-inconsistent", format!("nlri-count:{fname}"), format!("the independent walk finds {} NLRI, the peer decoded {}", walked.unwrap(), got.len()), &case));
+            return out;
+        }
+        // ret is Err for an unencodable input: a delivered subset is accepted
+    }
+    if ret.is_err() {
+        out.class = "err-accepted".into();
+        return out;
+    }
+    out.class = format!("ok:{}", match spans.len() { 1 => "1-frame", 2 => "2-frames", 3 => "3-frames", _ => "4+frames" });
+
+    // ---- value clauses
+    if errs > 0 {
+        out.viols.push(viol("attr-rejected", format!("{}:{}", if c.d.two_byte_as() { "as2" } else { "as4" }, c.attr.class()), format!("the peer reports {errs} attribute error(s) on a valid UPDATE"), &case));
+    }
+    if c.reach {
+        if let Some(nh) = nhs.iter().find(|nh| **nh != nexthop) {
+            let cls = match (nexthop, nh) {
+                (Some(a), Some(b)) => format!(":{}->{}", nh_class(&a), nh_class(b)),
+                (Some(a), None) => format!(":{}->none", nh_class(&a)),
+                (None, Some(b)) => format!(":none->{}", nh_class(b)),
+                _ => String::new(),
+            };
+            let fb = spans.first().map(|(o, l, _)| hex(&buf[*o..*o + *l])).unwrap_or_default();
+            out.viols.push(viol("nexthop-differs", format!("{fname}:{op}{cls}"), format!("sent next hop {nexthop:?}, received {nh:?}; bytes={}", trunc(&fb, 300)), &case));
+        }
+        let (want_attrs, free) = expected_attrs(attrs, c.d.two_byte_as());
+        let wk = sorted_keys(&want_attrs, free);
+        if let Some(a) = rattrs.iter().find(|a| sorted_keys(a, free) != wk) {
+            out.viols.push(viol(
+                "attrs-differ",
+                format!("{}:{}", if c.d.two_byte_as() { "as2" } else { "as4" }, c.attr.class()),
+                format!("sent {} (expected at the receiver {}), received {}", trunc(&format!("{attrs:?}"), 400), trunc(&format!("{want_attrs:?}"), 400), trunc(&format!("{a:?}"), 400)),
+                &case,
+            ));
+        }
+    }
+    // ---- fixed point: every decoded frame (first and last frame only for inputs above 4096 entries)
+    let idx: Vec<usize> = if views.len() <= 2 || n <= 4096 { (0..views.len()).collect() } else { vec![0, views.len() - 1] };
+    for i in idx {
+        match reencode(f, &c.d, &views[i]) {
+            Ok(None) => {}
+            Ok(Some(y)) if y == views[i] => {}
+            Ok(Some(y)) => {
+                out.viols.push(viol("fixed-point", format!("{fname}:{op}"), format!("frame {i}: decode(encode(x)) != x for the decoded x = {}; got {}", trunc(&format!("{:?}", views[i]), 300), trunc(&format!("{y:?}"), 300)), &case));
+                break;
+            }
+            Err(e) => {
+                out.viols.push(viol("fixed-point", format!("{fname}:{op}"), format!("frame {i}: {e}"), &case));
+                break;
+            }
+        }
+    }
+    out
+}
+
+/// Evaluate one fully specified update case (replay and value cases).
+fn eval_upd_case(c: &UpdCase) -> Result<EvalOut, String> {
+    let f = c.family();
+    let nhc = mkmsg::nexthops(f).get(c.nh).cloned().ok_or("next hop index")?;
+    if nhc.needs_ext_nh && !c.d.ext_nh() {
+        return Err("this next hop needs RFC 8950 negotiated".into());
+    }
+    let entries = build_entries(f, c.shape, c.n, c.d.tx_addpath())?;
+    if !all_distinct(&entries) {
+        return Err("generated entries are not distinct".into());
+    }
+    let attrs = c.attr.attrs()?;
+    let sz = sizing(c, &entries, &attrs, nhc.nexthop);
+    let msg = make_msg(c, entries, &Arc::new(attrs.clone()), nhc.nexthop);
+    Ok(eval_update(c, &msg, &attrs, nhc.nexthop, &sz))
+}
+
+fn sizing(c: &UpdCase, entries: &[PathNlri], attrs: &[Attribute], nh: Option<Nexthop>) -> Sizing {
+    let f = c.family();
+    let two = c.d.two_byte_as();
+    let ap = if c.d.tx_addpath() { 4 } else { 0 };
+    let overhead = probe(f, &c.d, c.reach, nh).map(|p| {
+        let delta = if c.reach { attrs_session_len(attrs, two) as isize - attrs_session_len(&mkmsg::base_attrs(), two) as isize } else { 0 };
+        (p.head as isize + delta) as usize + p.trail
+    });
+    // bulk shapes have at most three distinct sizes: look at the first entries and the last
+    let max_entry = entries.iter().take(130).chain(entries.last()).map(|e| mkmsg::nlri_wire_len(&e.nlri) + ap).max().unwrap_or(0);
+    Sizing { overhead, max_entry }
 }
 
 fn pair_class(d: &PairDesc) -> String {
@@ -353,50 +992,6 @@ fn pair_class(d: &PairDesc) -> String {
         if d.ext_nh() { "+xnh" } else { "" },
         if d.tx_addpath() { "+addpath" } else { "" }
     )
-}
-
-fn all_cases() -> Vec<String> {
-    let fams = mkmsg::families();
-    let mut c = Vec::new();
-    for (fi, f) in fams.iter().enumerate() {
-        for i in 0..mkmsg::nlris_named(*f).len() {
-            c.push(format!("nlri:{fi}:{i}:r"));
-            c.push(format!("nlri:{fi}:{i}:u"));
-        }
-        for i in 0..mkmsg::nlris_code_only(*f).len() {
-            c.push(format!("codeonly:{fi}:{i}:r"));
-            c.push(format!("codeonly:{fi}:{i}:u"));
-        }
-        c.push(format!("all:{fi}:r"));
-        c.push(format!("all:{fi}:u"));
-        c.push(format!("eor:{fi}"));
-        for i in 0..mkmsg::nexthops(*f).len() {
-            c.push(format!("nh:{fi}:{i}"));
-        }
-        for (name, _, _) in mkmsg::codec_pairs_quick(*f) {
-            for sz in ["min", "max"] {
-                c.push(format!("pair:{fi}:{name}:{sz}:r"));
-                c.push(format!("pair:{fi}:{name}:{sz}:u"));
-            }
-        }
-    }
-    let nsets = mkmsg::attribute_sets().len();
-    for fi in [0usize, 1, 7] {
-        for i in 0..nsets {
-            c.push(format!("attr:{fi}:{i}"));
-        }
-    }
-    for i in 0..mkmsg::opens().len() {
-        c.push(format!("open:{i}"));
-    }
-    for i in 0..mkmsg::notifications().len() {
-        c.push(format!("notif:{i}"));
-    }
-    for i in 0..mkmsg::route_refreshes().len() {
-        c.push(format!("rr:{i}"));
-    }
-    c.push("keepalive".into());
-    c
 }
 
 /// Generator self-checks that do not involve the subject's decoder: failures
@@ -416,6 +1011,11 @@ fn selfcheck(rep: &mut Report) -> Result<(), String> {
         }
         for big in [false, true] {
             let bulk = mkmsg::nlri_bulk(f, 3000, big);
+            // run_group computes the frame capacity from one size per shape
+            let l0 = mkmsg::nlri_wire_len(&bulk[0]);
+            if bulk.iter().any(|n| mkmsg::nlri_wire_len(n) != l0) {
+                return Err(format!("{}: nlri_nth(big={big}) sizes are not uniform", mkmsg::family_name(f)));
+            }
             let s: std::collections::BTreeSet<Vec<u8>> = bulk.iter().map(|n| n.encode_to_bytes()).collect();
             if s.len() != bulk.len() {
                 return Err(format!("{}: nlri_nth(big={big}) not injective", mkmsg::family_name(f)));
@@ -683,20 +1283,988 @@ fn wire_selftest(rep: &mut Report) -> Result<(), String> {
     Ok(())
 }
 
+// ---------------------------------------------------------------------------
+// groups: one (family, pair, op, shape, attribute block, next hop) with its entry-count ladder
+// ---------------------------------------------------------------------------
+
+/// the attribute-size band around "exactly one entry still fits": block sizes such that
+/// overhead + first entry == limit + delta for every delta in BAND_LO..=BAND_HI
+/// (the encoder's largest per-entry reservation is 64 bytes)
+const BAND_LO: isize = -70;
+const BAND_HI: isize = 2;
+
+#[derive(Clone, Copy, Debug)]
+enum GroupAttr {
+    Fixed(AttrSpec),
+    Band(isize),
+}
+
+#[derive(Clone, Copy, Debug, PartialEq)]
+enum CountSel {
+    /// 0,1,2,k-1,k,k+1,2k,3k+1
+    Ladder,
+    /// 1,2,k,k+1
+    Short,
+    /// k,k+1,k+2
+    Fill,
+}
+
+#[derive(Clone, Debug)]
+struct Group {
+    fi: usize,
+    d: PairDesc,
+    reach: bool,
+    shape: Shape,
+    attr: GroupAttr,
+    nh: usize,
+    counts: CountSel,
+}
+
+#[derive(Default)]
+struct Acc {
+    viols: BTreeMap<String, ((usize, usize, usize), Violation, u64)>,
+    wire: HashSet<u64>,
+    tally: BTreeMap<String, u64>,
+    evals: u64,
+    samples: Vec<String>,
+    machinery: Option<String>,
+}
+
+impl Acc {
+    fn add_viols(&mut self, weight: (usize, usize, usize), vs: Vec<Violation>) {
+        for v in vs {
+            match self.viols.get_mut(&v.sig) {
+                Some((w, old, n)) => {
+                    *n += 1;
+                    if (weight, &v.case) < (*w, &old.case) {
+                        *w = weight;
+                        *old = v;
+                    }
+                }
+                None => {
+                    self.viols.insert(v.sig.clone(), (weight, v, 1));
+                }
+            }
+        }
+    }
+    fn tally(&mut self, k: &str) {
+        *self.tally.entry(k.to_string()).or_default() += 1;
+    }
+}
+
+/// per-work-item result, merged into the shared accumulator in one step
+#[derive(Default)]
+struct Local {
+    viols: Vec<((usize, usize, usize), Violation)>,
+    hashes: Vec<u64>,
+    tally: Vec<String>,
+    evals: u64,
+    sample: Option<String>,
+    machinery: Option<String>,
+}
+
+impl Local {
+    fn take(&mut self, c: &UpdCase, attr_len: usize, o: EvalOut, sub: &str) {
+        self.evals += 1;
+        let name = c.name();
+        for v in o.viols {
+            // witness preference: small attribute block, few entries, pair close to the default one
+            let dd = PairDesc::DEFAULT;
+            let dev = [c.d.l_as4 != dd.l_as4, c.d.r_as4 != dd.r_as4, c.d.l_ext_msg, c.d.r_ext_msg, c.d.l_ext_nh, c.d.r_ext_nh, c.d.l_addpath != 0, c.d.r_addpath != 0].iter().filter(|x| **x).count();
+            self.viols.push(((dev * 100_000 + attr_len, c.n, name.len()), v));
+        }
+        if o.hash != 0 {
+            self.hashes.push(o.hash);
+        }
+        self.tally.push(format!("{sub}: outcome {}", o.class));
+        if o.frames > 0 {
+            let lim = c.d.max_len();
+            let rel = if o.max_frame > lim { "above the limit" } else if o.max_frame == lim { "exactly the limit" } else if o.max_frame + 70 >= lim { "within 70 bytes below the limit" } else { "well below the limit" };
+            self.tally.push(format!("{sub}: largest frame {rel}"));
+        }
+        if self.sample.is_none() {
+            self.sample = Some(name);
+        }
+    }
+}
+
+fn ladder_counts(sel: CountSel, k: Option<usize>) -> Vec<usize> {
+    let mut v: Vec<usize> = match (sel, k) {
+        (CountSel::Ladder, None) => vec![0, 1, 2],
+        (CountSel::Ladder, Some(0)) => vec![0, 1, 2, 3],
+        (CountSel::Ladder, Some(k)) => vec![0, 1, 2, k - 1, k, k + 1, 2 * k, 3 * k + 1],
+        (CountSel::Short, None) | (CountSel::Short, Some(0)) => vec![1, 2],
+        (CountSel::Short, Some(k)) => vec![1, 2, k, k + 1],
+        (CountSel::Fill, None) | (CountSel::Fill, Some(0)) => vec![1, 2, 3],
+        (CountSel::Fill, Some(k)) => vec![k, k + 1, k + 2],
+    };
+    v.sort();
+    v.dedup();
+    v
+}
+
+fn run_group(g: &Group, sub: &str, l: &mut Local) {
+    let f = fam(g.fi);
+    let two = g.d.two_byte_as();
+    let ap = g.d.tx_addpath();
+    let max = g.d.max_len();
+    let Some(nhc) = mkmsg::nexthops(f).get(g.nh).cloned() else {
+        l.machinery = Some(format!("group {g:?}: next hop index"));
+        return;
+    };
+    let p = probe(f, &g.d, g.reach, nhc.nexthop);
+    let runs = size_runs(f, g.shape, ap);
+    if runs.is_empty() {
+        l.machinery = Some(format!("group {g:?}: not a bulk shape"));
+        return;
+    }
+    let base_s = attrs_session_len(&mkmsg::base_attrs(), two) as isize;
+    let spec = match g.attr {
+        GroupAttr::Fixed(s) => s,
+        GroupAttr::Band(delta) => {
+            let Some(p) = p else {
+                l.tally.push(format!("{sub}: group skipped (probe failed)"));
+                return;
+            };
+            let a_s = max as isize + delta - runs[0].1 as isize - p.trail as isize - p.head as isize + base_s;
+            let a4 = a_s + if two { 2 } else { 0 };
+            if a4 < 16 {
+                l.tally.push(format!("{sub}: group skipped (block too small)"));
+                return;
+            }
+            AttrSpec::Block(a4 as usize)
+        }
+    };
+    let attrs = match spec.attrs() {
+        Ok(a) => a,
+        Err(e) => {
+            l.machinery = Some(e);
+            return;
+        }
+    };
+    if let AttrSpec::Block(t) = spec {
+        if t >= 16 && mkmsg::attrs_wire_len(&attrs) != t {
+            l.machinery = Some(format!("attr_block_of_size({t}) is not exact"));
+            return;
+        }
+    }
+    let attr_len = attrs_session_len(&attrs, two);
+    let attrs_arc = Arc::new(attrs.clone());
+    let overhead = p.map(|p| {
+        let delta = if g.reach { attr_len as isize - base_s } else { 0 };
+        (p.head as isize + delta) as usize + p.trail
+    });
+    let k = overhead.map(|o| fit(&runs, max.saturating_sub(o)));
+    let max_entry = runs.iter().map(|r| r.1).max().unwrap_or(0);
+    let sz = Sizing { overhead, max_entry };
+    let mut counts = ladder_counts(g.counts, k);
+    let mut done: BTreeSet<usize> = BTreeSet::new();
+    let mut all: Vec<PathNlri>;
+    let mut round = 0;
+    while !counts.is_empty() && round < 2 {
+        round += 1;
+        let n_max = *counts.iter().max().unwrap();
+        {
+            all = match build_entries(f, g.shape, n_max, ap) {
+                Ok(e) => e,
+                Err(e) => {
+                    l.machinery = Some(format!("group {g:?}: {e}"));
+                    return;
+                }
+            };
+            if !all_distinct(&all) {
+                l.machinery = Some(format!("group {g:?}: generated entries are not distinct"));
+                return;
+            }
+        }
+        let mut k_sub: Option<usize> = None;
+        counts.sort();
+        for n in counts.iter().rev() {
+            if !done.insert(*n) {
+                continue;
+            }
+            let c = UpdCase { fi: g.fi, d: g.d, reach: g.reach, shape: g.shape, attr: spec, nh: g.nh, n: *n };
+            // descending counts: the list for n is a prefix of the list for any larger n
+            all.truncate(*n);
+            let msg = make_msg(&c, std::mem::take(&mut all), &attrs_arc, nhc.nexthop);
+            let o = eval_update(&c, &msg, &attrs, nhc.nexthop, &sz);
+            all = take_entries(msg);
+            if *n == n_max && o.frames > 1 {
+                k_sub = o.first_entries;
+            }
+            l.take(&c, mkmsg::attrs_wire_len(&attrs), o, sub);
+        }
+        // the encoder's own split point, when it differs from what fits
+        counts = match (k_sub, g.counts) {
+            (Some(ks), CountSel::Ladder) if ks > 0 && Some(ks) != k => vec![ks.saturating_sub(1), ks, ks + 1, 2 * ks, 2 * ks + 1].into_iter().filter(|n| !done.contains(n)).collect(),
+            (Some(ks), CountSel::Fill) if ks > 0 && Some(ks) != k => vec![ks, ks + 1].into_iter().filter(|n| !done.contains(n)).collect(),
+            _ => vec![],
+        };
+        if !counts.is_empty() {
+            l.tally.push(format!("{sub}: encoder splits at a different count than what fits"));
+        }
+    }
+}
+
+// ---------------------------------------------------------------------------
+// OPEN
+// ---------------------------------------------------------------------------
+
+/// RFC 5492 §4 capability value, written from the RFCs (3392/4760, 8950 §3, 4724 §3,
+/// 6793 §3, 7911 §4, 9494 §3.1, draft-walton-bgp-hostname-capability)
+fn cap_wire(c: &Capability) -> (u8, Vec<u8>) {
+    let fam3 = |f: &Family| vec![(f.afi() >> 8) as u8, f.afi() as u8, f.safi()];
+    match c {
+        Capability::MultiProtocol(f) => (1, vec![(f.afi() >> 8) as u8, f.afi() as u8, 0, f.safi()]),
+        Capability::RouteRefresh => (2, vec![]),
+        Capability::ExtendedNexthop(v) => (5, v.iter().flat_map(|(f, a)| vec![(f.afi() >> 8) as u8, f.afi() as u8, 0, f.safi(), (*a >> 8) as u8, *a as u8]).collect()),
+        Capability::ExtendedMessage => (6, vec![]),
+        Capability::GracefulRestart { flags, restart_time, families } => {
+            let w = (*flags as u16) << 12 | *restart_time;
+            let mut b = vec![(w >> 8) as u8, w as u8];
+            for (f, fl) in families {
+                b.extend(fam3(f));
+                b.push(*fl);
+            }
+            (64, b)
+        }
+        Capability::FourOctetAsNumber(a) => (65, a.to_be_bytes().to_vec()),
+        Capability::AddPath(v) => (69, v.iter().flat_map(|(f, m)| { let mut b = fam3(f); b.push(*m); b }).collect()),
+        Capability::EnhancedRouteRefresh => (70, vec![]),
+        Capability::LongLivedGracefulRestart(v) => (71, v.iter().flat_map(|(f, fl, t)| { let mut b = fam3(f); b.push(*fl); b.extend_from_slice(&t.to_be_bytes()[1..]); b }).collect()),
+        Capability::Fqdn { hostname, domain } => {
+            let mut b = vec![hostname.len() as u8];
+            b.extend_from_slice(hostname.as_bytes());
+            b.push(domain.len() as u8);
+            b.extend_from_slice(domain.as_bytes());
+            (73, b)
+        }
+        Capability::Unknown { code, bin } => (*code, bin.clone()),
+    }
+}
+
+fn cap_kind_name(c: &Capability) -> &'static str {
+    match c {
+        Capability::MultiProtocol(_) => "multiprotocol",
+        Capability::RouteRefresh => "route-refresh",
+        Capability::ExtendedNexthop(_) => "extended-nexthop",
+        Capability::ExtendedMessage => "extended-message",
+        Capability::GracefulRestart { .. } => "graceful-restart",
+        Capability::FourOctetAsNumber(_) => "as4",
+        Capability::AddPath(_) => "add-path",
+        Capability::EnhancedRouteRefresh => "enhanced-route-refresh",
+        Capability::LongLivedGracefulRestart(_) => "llgr",
+        Capability::Fqdn { .. } => "fqdn",
+        Capability::Unknown { .. } => "unknown",
+    }
+}
+
+fn mk_open(asn: u32, caps: Vec<Capability>) -> Message {
+    Message::Open(Open { as_number: asn, holdtime: HoldTime::new(90).unwrap(), router_id: 0xc000_0201, capability: caps })
+}
+
+/// capability list the daemon derives from a peer configuration
+/// (daemon/src/event/peer.rs build_local_cap): the first n families
+fn daemon_caps(n: usize, ap: bool, gr: bool, llgr: bool, v6_transport: bool) -> Vec<Capability> {
+    let fams: Vec<Family> = mkmsg::families().into_iter().take(n).collect();
+    let mut v = Vec::new();
+    if fams.is_empty() {
+        v.push(Capability::MultiProtocol(if v6_transport { Family::IPV6 } else { Family::IPV4 }));
+    } else {
+        for f in &fams {
+            v.push(Capability::MultiProtocol(*f));
+        }
+        if ap {
+            v.push(Capability::AddPath(fams.iter().map(|f| (*f, 3u8)).collect()));
+        }
+        if v6_transport {
+            let e: Vec<(Family, u16)> = fams.iter().filter(|f| f.afi() == Family::AFI_IP && **f != Family::IPV4_SRPOLICY).map(|f| (*f, Family::AFI_IP6)).collect();
+            if !e.is_empty() {
+                v.push(Capability::ExtendedNexthop(e));
+            }
+        }
+    }
+    if gr {
+        v.push(Capability::GracefulRestart { flags: 0x4, restart_time: 120, families: fams.iter().map(|f| (*f, 0u8)).collect() });
+    }
+    if llgr {
+        v.push(Capability::LongLivedGracefulRestart(fams.iter().map(|f| (*f, 0u8, 3600u32)).collect()));
+    }
+    v.push(Capability::FourOctetAsNumber(65001));
+    v.push(Capability::ExtendedMessage);
+    v
+}
+
+fn open_of_case(case: &str) -> Result<Message, String> {
+    let p: Vec<&str> = case.split(':').collect();
+    let num = |i: usize| -> Result<usize, String> { p.get(i).and_then(|s| s.parse().ok()).ok_or(format!("bad case {case}")) };
+    match p.get(1).copied() {
+        Some("set") => mkmsg::opens().get(num(2)?).map(|x| x.1.clone()).ok_or("index".into()),
+        Some("over") => mkmsg::capability_sets_oversize().get(num(2)?).map(|x| mk_open(65001, x.1.clone())).ok_or("index".into()),
+        Some("daemon") => Ok(mk_open(65001, daemon_caps(num(2)?, num(3)? != 0, num(4)? != 0, num(5)? != 0, num(6)? != 0))),
+        Some("unk") => Ok(mk_open(65001, vec![Capability::Unknown { code: 200, bin: vec![7; num(2)?] }])),
+        Some("fqdn") => Ok(mk_open(65001, vec![Capability::Fqdn { hostname: "h".repeat(num(2)?), domain: "d".repeat(num(3)?) }])),
+        Some("fill") => {
+            // MP(ipv4) + AS4 + two unknown capabilities: total capability bytes = <total>
+            let total = num(2)?;
+            if total < 16 {
+                return Err("fill total < 16".into());
+            }
+            let a = (total - 16).min(200);
+            let b = total - 16 - a;
+            if b > 200 {
+                return Err("fill total too large".into());
+            }
+            Ok(mk_open(65001, vec![
+                Capability::MultiProtocol(Family::IPV4),
+                Capability::FourOctetAsNumber(65001),
+                Capability::Unknown { code: 200, bin: vec![7; a] },
+                Capability::Unknown { code: 201, bin: vec![8; b] },
+            ]))
+        }
+        _ => Err(format!("unknown case {case}")),
+    }
+}
+
+fn check_open(case: &str, msg: &Message) -> Vec<Violation> {
+    let Message::Open(o) = msg else { return vec![] };
+    let want: Vec<(u8, Vec<u8>)> = o.capability.iter().map(cap_wire).collect();
+    let total: usize = want.iter().map(|(_, b)| 2 + b.len()).sum();
+    let single = o.capability.iter().zip(&want).find(|(_, (_, b))| b.len() > 255).map(|(c, _)| cap_kind_name(c));
+    // RFC 5492 §4 / RFC 4271 §4.2: one capability parameter holds at most 255 bytes, all
+    // parameters together (2 bytes of parameter header) at most 255
+    let overflow: Option<String> = match single {
+        Some(k) => Some(format!("single:{k}")),
+        None if total > 253 => Some("sum".into()),
+        None => None,
+    };
+    let ovf = |what: String| -> Vec<Violation> {
+        let kind = overflow.clone().unwrap();
+        vec![viol("open-capability-length-overflow", kind, format!("{} capabilities, {total} capability bytes: {what}", o.capability.len()), case)]
+    };
+    let mut tx = PeerCodec::new();
+    let mut rx = PeerCodec::new();
+    let (ret, buf) = match encode_raw(&mut tx, msg) {
+        Enc::Panic(p) => {
+            return if overflow.is_some() { ovf(format!("encode_to panics: {p}")) } else { vec![viol("encode-panics", "open".into(), p, case)] };
+        }
+        Enc::Ret(r, b) => (r, b),
+    };
+    if let Err(e) = ret {
+        if overflow.is_none() {
+            return vec![viol("encode-fails", "open".into(), format!("Err({e}) for an OPEN that fits ({total} capability bytes)"), case)];
+        }
+        if !buf.is_empty() {
+            return ovf(format!("Err({e}) but {} byte(s) were left in the buffer (the daemon sends them): {}", buf.len(), trunc(&hex(&buf), 200)));
+        }
+        return vec![]; // accepted: clean refusal
+    }
+    let garbled = |what: String| -> Vec<Violation> {
+        if overflow.is_some() { ovf(what) } else { vec![viol("length-field-inconsistent", "open-parameters".into(), what, case)] }
+    };
+    if single.is_some() {
+        return ovf(format!("Ok although a capability value longer than 255 bytes cannot be expressed; bytes={}", trunc(&hex(&buf), 200)));
+    }
+    let spans = match split_tolerant(&buf) {
+        Ok(s) if s.len() == 1 && !s[0].2 => s,
+        Ok(s) => return garbled(format!("{} frames for one OPEN", s.len())),
+        Err(e) => return garbled(format!("buffer cannot be split into frames: {e}; bytes={}", trunc(&hex(&buf), 200))),
+    };
+    let fb = &buf[..spans[0].1];
+    let fr = match wire::read_frame(fb, 4096) {
+        Ok(fr) => fr,
+        Err(e) => return garbled(format!("{e}; bytes={}", trunc(&hex(fb), 200))),
+    };
+    let wire::Body::Open(w) = &fr.body else { return garbled("not an OPEN".into()) };
+    let seen: Vec<(u8, Vec<u8>)> = w.caps.iter().map(|c| (c.code, c.value.of(fb).to_vec())).collect();
+    if seen != want {
+        return garbled(format!(
+            "the capabilities on the wire differ from the submitted ones: {} of {} present, optional-parameter length byte {} ; bytes={}",
+            seen.len(), want.len(), w.opt_len, trunc(&hex(fb), 200)
+        ));
+    }
+    let asn16 = if o.as_number > 65535 { 23456 } else { o.as_number as u16 };
+    if w.version != 4 || w.my_as != asn16 || w.hold != o.holdtime.seconds() || w.id != o.router_id {
+        return vec![viol("value-differs", "open".into(), format!("fixed OPEN fields differ on the wire; bytes={}", trunc(&hex(fb), 120)), case)];
+    }
+    let views = match decode_stream(&mut rx, &buf) {
+        Ok(v) => v,
+        Err((_, e)) => {
+            return if overflow.is_some() { ovf(format!("the OPEN is well-formed (RFC 5492 / RFC 9072) but the peer's decoder rejects it: {e}")) } else { vec![viol("decode-rejects", "open".into(), format!("{e}; bytes={}", trunc(&hex(fb), 200)), case)] };
+        }
+    };
+    let expect = View::Open { asn: o.as_number, hold: o.holdtime.seconds(), id: o.router_id, caps: o.capability.clone() };
+    if views.len() != 1 || views[0] != expect {
+        return vec![viol("value-differs", "open".into(), format!("decoded {} instead of the submitted OPEN", trunc(&format!("{views:?}"), 300)), case)];
+    }
+    match reencode(Family::IPV4, &PairDesc::DEFAULT, &views[0]) {
+        Ok(Some(y)) if y == views[0] => vec![],
+        Ok(y) => vec![viol("fixed-point", "open".into(), format!("decode(encode(x)) = {} for x = {}", trunc(&format!("{y:?}"), 200), trunc(&format!("{:?}", views[0]), 200)), case)],
+        Err(e) => vec![viol("fixed-point", "open".into(), e, case)],
+    }
+}
+
+// ---------------------------------------------------------------------------
+// NOTIFICATION / KEEPALIVE / ROUTE-REFRESH / End-of-RIB
+// ---------------------------------------------------------------------------
+
+fn xmsg_desc(x: &str) -> Result<PairDesc, String> {
+    let mut d = PairDesc::DEFAULT;
+    match x {
+        "x" => {
+            d.l_ext_msg = true;
+            d.r_ext_msg = true;
+        }
+        "n" => {}
+        _ => return Err("x|n expected".into()),
+    }
+    Ok(d)
+}
+
+/// One-frame message: encode, independent walk, size, decode, compare, fixed point.
+fn check_simple(case: &str, kind: &str, f: Family, d: &PairDesc, msg: &Message) -> Vec<Violation> {
+    let shape = kind.to_string();
+    let (mut tx, mut rx) = mkmsg::pair_from_desc(f, d);
+    let max = d.max_len();
+    let (ret, buf) = match encode_raw(&mut tx, msg) {
+        Enc::Panic(p) => return vec![viol("encode-panics", shape, p, case)],
+        Enc::Ret(r, b) => (r, b),
+    };
+    let too_long = |len: usize, extra: &str| vec![viol("frame-too-long", shape.clone(), format!("the {kind} frame is {len} bytes long, the negotiated maximum is {max}{extra}"), case)];
+    // a NOTIFICATION whose data cannot fit may be refused (Err, nothing written)
+    let payload_fits = match msg {
+        Message::Notification(n) => 21 + n.notification_data().len() <= max,
+        _ => true,
+    };
+    if let Err(e) = &ret {
+        if payload_fits || !buf.is_empty() {
+            return vec![viol("encode-fails", shape, format!("Err({e}), {} byte(s) left in the buffer", buf.len()), case)];
+        }
+        return vec![];
+    }
+    let spans = match split_tolerant(&buf) {
+        Ok(s) => s,
+        Err(e) => {
+            return if payload_fits { vec![viol("length-field-inconsistent", "header-length".into(), format!("{e}; bytes={}", trunc(&hex(&buf), 200)), case)] } else { too_long(buf.len(), " and its 16-bit length field does not describe it") };
+        }
+    };
+    if spans.len() != 1 || ret.as_ref().ok() != Some(&1) {
+        return vec![viol("frame-count", shape, format!("{} frame(s), returned {:?} for one message", spans.len(), ret), case)];
+    }
+    if spans[0].2 || spans[0].1 > max {
+        return too_long(spans[0].1, if spans[0].2 { " (length field wrapped)" } else { "" });
+    }
+    let fb = &buf[..];
+    let fr = match wire::read_frame(fb, 65535) {
+        Ok(fr) => fr,
+        Err(e) => return vec![viol("length-field-inconsistent", field_of(&e).into(), format!("{e}; bytes={}", trunc(&hex(fb), 200)), case)],
+    };
+    let views = match decode_stream(&mut rx, &buf) {
+        Ok(v) if v.len() == 1 => v,
+        Ok(v) => return vec![viol("frame-count", format!("{shape}:peer"), format!("the peer found {} messages", v.len()), case)],
+        Err((_, e)) => return vec![viol("decode-rejects", shape, format!("{e}; bytes={}", trunc(&hex(fb), 200)), case)],
+    };
+    let same = match (msg, &views[0], &fr.body) {
+        (Message::Notification(a), View::Notification(b), wire::Body::Notification { code, subcode, data }) if payload_fits => {
+            a == b && *code == a.notification_code() && *subcode == a.notification_subcode() && data.of(fb) == a.notification_data()
+        }
+        // data that cannot fit (echo of a maximal received frame): a prefix of it is accepted
+        (Message::Notification(a), View::Notification(b), wire::Body::Notification { code, subcode, data }) => {
+            *code == a.notification_code() && *subcode == a.notification_subcode() && a.notification_data().starts_with(data.of(fb))
+                && b.notification_code() == *code && b.notification_subcode() == *subcode && b.notification_data() == data.of(fb)
+        }
+        (Message::Keepalive, View::Keepalive, wire::Body::Keepalive) => true,
+        (Message::RouteRefresh { family: a }, View::RouteRefresh(b), wire::Body::RouteRefresh { afi, subtype, safi }) => a == b && *afi == a.afi() && *safi == a.safi() && *subtype == 0,
+        (Message::Update(Update::EndOfRib(a)), View::Eor(b), wire::Body::Update(u)) => {
+            a == b && u.withdrawn.len == 0 && u.nlri.len == 0 && if *a == Family::IPV4 { u.attr_block.len == 0 } else { u.mp_unreach.as_ref().is_some_and(|m| (m.afi, m.safi, m.nlri.len) == (a.afi(), a.safi(), 0)) && u.attrs.len() == 1 }
+        }
+        _ => false,
+    };
+    if !same {
+        return vec![viol("value-differs", shape, format!("decoded {} / independent wire view differ from the submitted message; bytes={}", trunc(&format!("{:?}", views[0]), 200), trunc(&hex(fb), 200)), case)];
+    }
+    match reencode(f, d, &views[0]) {
+        Ok(Some(y)) if y == views[0] => vec![],
+        Ok(y) => vec![viol("fixed-point", shape, format!("decode(encode(x)) = {} for x = {}", trunc(&format!("{y:?}"), 200), trunc(&format!("{:?}", views[0]), 200)), case)],
+        Err(e) => vec![viol("fixed-point", shape, e, case)],
+    }
+}
+
+// ---------------------------------------------------------------------------
+// RFC 6793: a NEW speaker behind an OLD one
+// ---------------------------------------------------------------------------
+
+const OLD_AS: u16 = 64999;
+
+/// What an OLD (2-byte) eBGP speaker does to the attributes when it propagates the route
+/// (RFC 4271 §5.1.2 prepending in 2-byte form; RFC 6793 §4.1: AS4_PATH / AS4_AGGREGATOR are
+/// unknown optional transitive attributes to it: passed on with the Partial bit).
+fn old_speaker_forward(frame: &[u8]) -> Result<Vec<u8>, String> {
+    let fr = wire::read_frame(frame, 65535)?;
+    let wire::Body::Update(u) = &fr.body else { return Err("not an UPDATE".into()) };
+    let mut block: Vec<u8> = Vec::new();
+    for a in &u.attrs {
+        let mut body = a.value.of(frame).to_vec();
+        let mut flags = a.flags & !0x10;
+        if a.code == 2 {
+            if body.len() >= 2 && body[0] == 2 && body[1] < 255 {
+                body[1] += 1;
+                body.splice(2..2, OLD_AS.to_be_bytes());
+            } else {
+                let mut nb = vec![2u8, 1];
+                nb.extend_from_slice(&OLD_AS.to_be_bytes());
+                nb.extend_from_slice(&body);
+                body = nb;
+            }
+        } else if a.code == 17 || a.code == 18 {
+            flags |= 0x20;
+        }
+        if body.len() > 255 {
+            block.push(flags | 0x10);
+            block.push(a.code);
+            block.extend_from_slice(&(body.len() as u16).to_be_bytes());
+        } else {
+            block.push(flags);
+            block.push(a.code);
+            block.push(body.len() as u8);
+        }
+        block.extend_from_slice(&body);
+    }
+    let nlri = u.nlri.of(frame);
+    let total = 19 + 2 + 2 + block.len() + nlri.len();
+    if total > 65535 || block.len() > 65535 {
+        return Err("forwarded frame too long".into());
+    }
+    let mut out = vec![0xffu8; 16];
+    out.extend_from_slice(&(total as u16).to_be_bytes());
+    out.push(2);
+    out.extend_from_slice(&[0, 0]);
+    out.extend_from_slice(&(block.len() as u16).to_be_bytes());
+    out.extend_from_slice(&block);
+    out.extend_from_slice(nlri);
+    Ok(out)
+}
+
+fn check_as4hop(case: &str, fi: usize, set: usize) -> Result<Vec<Violation>, String> {
+    let f = fam(fi);
+    let (name, attrs) = attribute_sets().get(set).cloned().ok_or("attribute set index")?;
+    let kind = name.split('#').next().unwrap_or("").to_string();
+    let path = attrs.iter().find(|a| a.code() == Attribute::AS_PATH && !a.is_opaque()).ok_or("no AS_PATH")?;
+    let segs = as_path_segments(path.binary().unwrap());
+    if segs.iter().any(|(t, _)| is_confed(*t)) {
+        return Ok(vec![]); // an external OLD speaker never sees confederation segments
+    }
+    // sender: NEW, its peer OLD; final receiver: NEW, its peer OLD
+    let to_old = PairDesc { r_as4: false, ..PairDesc::DEFAULT };
+    let from_old = PairDesc { l_as4: false, ..PairDesc::DEFAULT };
+    let (mut tx, _) = mkmsg::pair_from_desc(f, &to_old);
+    let (_, mut rx) = mkmsg::pair_from_desc(f, &from_old);
+    let e = build_entries(f, Shape::Small, 1, false)?;
+    let nh = mkmsg::default_nexthop(f);
+    let msg = mkmsg::reach(f, e.clone(), nh, &attrs);
+    let frames = match catch(|| mkmsg::encode(&mut tx, &msg)) {
+        Ok(Ok(fr)) if fr.len() == 1 => fr,
+        other => return Ok(vec![viol("as4-reconcile", format!("{kind}:encode"), format!("sender did not produce one frame: {:?}", other.map(|r| r.map(|f| f.len()))), case)]),
+    };
+    let fwd = old_speaker_forward(&frames[0])?;
+    let views = match decode_stream(&mut rx, &fwd) {
+        Ok(v) => v,
+        Err((_, e)) => return Ok(vec![viol("as4-reconcile", format!("{kind}:decode-rejects"), format!("the NEW speaker rejects what the OLD speaker forwarded: {e}; bytes={}", trunc(&hex(&fwd), 300)), case)]),
+    };
+    let Some(View::Routes { reach: Some((_, got_e, _)), attrs: got, errs, .. }) = views.first() else {
+        return Ok(vec![viol("as4-reconcile", format!("{kind}:no-route"), format!("decoded {}", trunc(&format!("{views:?}"), 300)), case)]);
+    };
+    // expected: [OLD_AS] prepended to the original path (RFC 6793 §4.2.3: AS_PATH has one
+    // hop more than AS4_PATH, that leading hop is taken from AS_PATH)
+    let mut want_segs = segs.clone();
+    match want_segs.first_mut() {
+        Some((2, v)) if v.len() < 255 => v.insert(0, OLD_AS as u32),
+        _ => want_segs.insert(0, (2, vec![OLD_AS as u32])),
+    }
+    let (mut want, _) = expected_attrs(&attrs, true);
+    for a in want.iter_mut() {
+        if a.code() == Attribute::AS_PATH && !a.is_opaque() {
+            *a = mkmsg::as_path(&want_segs);
+        }
+    }
+    let mut vs = Vec::new();
+    if *errs > 0 || got_e != &e {
+        vs.push(viol("as4-reconcile", format!("{kind}:route"), format!("{errs} attribute errors, entries {got_e:?}"), case));
+    }
+    // the path is compared as a sequence of hops: adjacent AS_SEQUENCE segments are one sequence
+    // however they are cut (the reconstruction prepends whole segments, RFC 6793 §4.2.3)
+    let flat = |v: &[Attribute]| -> Option<Vec<(u8, Vec<u32>)>> {
+        let a = v.iter().find(|a| a.code() == Attribute::AS_PATH && !a.is_opaque())?;
+        let mut out: Vec<(u8, Vec<u32>)> = Vec::new();
+        for (t, asns) in as_path_segments(a.binary()?) {
+            match out.last_mut() {
+                Some((2, l)) if t == 2 => l.extend(asns),
+                _ => out.push((t, asns)),
+            }
+        }
+        Some(out)
+    };
+    if sorted_keys(got, true) != sorted_keys(&want, true) || flat(got) != flat(&want) {
+        vs.push(viol("as4-reconcile", format!("{kind}:attrs"), format!("behind an OLD speaker (AS {OLD_AS}) expected {}, the NEW speaker holds {}", trunc(&format!("{want:?}"), 400), trunc(&format!("{got:?}"), 400)), case));
+    }
+    Ok(vs)
+}
+
+// ---------------------------------------------------------------------------
+// replay / single case evaluation
+// ---------------------------------------------------------------------------
+
+fn eval_other(case: &str) -> Result<Vec<Violation>, String> {
+    let p: Vec<&str> = case.split(':').collect();
+    let num = |i: usize| -> Result<usize, String> { p.get(i).and_then(|s| s.parse().ok()).ok_or(format!("bad case {case}")) };
+    match p[0] {
+        "open" => Ok(check_open(case, &open_of_case(case)?)),
+        "notif" => {
+            let d = xmsg_desc(p.get(2).copied().unwrap_or(""))?;
+            Ok(check_simple(case, "notification", Family::IPV4, &d, &mkmsg::notifications().get(num(1)?).ok_or("index")?.1))
+        }
+        "notifbig" => {
+            let d = xmsg_desc(p.get(2).copied().unwrap_or(""))?;
+            // the daemon echoes the offending message: Notification::RouteRefreshInvalidLength { data: whole frame }
+            let m = Message::Notification(Notification::RouteRefreshInvalidLength { data: vec![0x5a; num(1)?] });
+            Ok(check_simple(case, "notification", Family::IPV4, &d, &m))
+        }
+        "rr" => {
+            let d = xmsg_desc(p.get(2).copied().unwrap_or(""))?;
+            let (_, m) = mkmsg::route_refreshes().get(num(1)?).cloned().ok_or("index")?;
+            let Message::RouteRefresh { family } = m else { return Err("rr".into()) };
+            Ok(check_simple(case, "route-refresh", family, &d, &m))
+        }
+        "keepalive" => Ok(check_simple(case, "keepalive", Family::IPV4, &xmsg_desc(p.get(1).copied().unwrap_or(""))?, &mkmsg::keepalive())),
+        "eor" => {
+            let fi = num(1)?;
+            let d = PairDesc::parse(p.get(2).ok_or("pair")?).ok_or("pair name")?;
+            let f = *mkmsg::families().get(fi).ok_or("family index")?;
+            Ok(check_simple(case, &format!("eor:{}", mkmsg::family_name(f)), f, &d, &Message::eor(f)))
+        }
+        "as4hop" => check_as4hop(case, num(1)?, num(2)?),
+        _ => Err(format!("unknown case {case}")),
+    }
+}
+
+// ---------------------------------------------------------------------------
+// enumeration
+// ---------------------------------------------------------------------------
+
+enum Work {
+    Group(Group),
+    Upd(UpdCase),
+    Other(String),
+}
+
+fn quick_descs(f: Family) -> Vec<PairDesc> {
+    mkmsg::codec_pairs_quick(f).into_iter().filter_map(|(n, _, _)| PairDesc::parse(&n)).collect()
+}
+
+fn all_descs(f: Family) -> Vec<PairDesc> {
+    mkmsg::codec_pairs_desc(f).into_iter().map(|(d, _, _)| d).collect()
+}
+
+struct Sub {
+    name: &'static str,
+    rule: String,
+    work: Vec<Work>,
+}
+
+fn sub_values(thorough: bool) -> Sub {
+    let mut w = Vec::new();
+    let fams = mkmsg::families();
+    let dflt = PairDesc::DEFAULT;
+    let blk = AttrSpec::Block(13);
+    for (fi, f) in fams.iter().enumerate() {
+        for reach in [true, false] {
+            for i in 0..mkmsg::nlris_named(*f).len() {
+                w.push(Work::Upd(UpdCase { fi, d: dflt, reach, shape: Shape::Named(i), attr: blk, nh: 0, n: 1 }));
+            }
+            for i in 0..mkmsg::nlris_code_only(*f).len() {
+                w.push(Work::Upd(UpdCase { fi, d: dflt, reach, shape: Shape::CodeOnly(i), attr: blk, nh: 0, n: 1 }));
+            }
+            w.push(Work::Upd(UpdCase { fi, d: dflt, reach, shape: Shape::AllNamed, attr: blk, nh: 0, n: named_nonstack(*f).len() }));
+        }
+        // every RFC-valid next hop of the family under every negotiated outcome that allows it
+        for d in quick_descs(*f) {
+            for (nh, c) in mkmsg::nexthops(*f).iter().enumerate() {
+                if c.needs_ext_nh && !d.ext_nh() {
+                    continue;
+                }
+                for shape in [Shape::Small, Shape::Big] {
+                    w.push(Work::Upd(UpdCase { fi, d, reach: true, shape, attr: blk, nh, n: 2 }));
+                }
+            }
+            w.push(Work::Other(format!("eor:{fi}:{}", d.name())));
+        }
+    }
+    // every attribute kind / value: all 16 outcomes; quick on 4 families, thorough on all
+    let attr_fams: Vec<usize> = if thorough { (0..fams.len()).collect() } else { vec![0, 1, 7, 8] };
+    for fi in attr_fams {
+        for d in quick_descs(fams[fi]) {
+            for i in 0..attribute_sets().len() {
+                w.push(Work::Upd(UpdCase { fi, d, reach: true, shape: Shape::Big, attr: AttrSpec::Set(i), nh: 0, n: 2 }));
+            }
+        }
+    }
+    for i in 0..attribute_sets().len() {
+        for fi in [0usize, 1, 7] {
+            w.push(Work::Other(format!("as4hop:{fi}:{i}")));
+        }
+    }
+    for fi in [0usize, 1, 7] {
+        for d in quick_descs(fams[fi]) {
+            for i in 0..extra_sets().len() {
+                w.push(Work::Upd(UpdCase { fi, d, reach: true, shape: Shape::Small, attr: AttrSpec::Extra(i), nh: 0, n: 1 }));
+            }
+        }
+    }
+    Sub {
+        name: "values",
+        rule: "every named NLRI value x {reach, unreach}; every RFC-valid next hop x 16 negotiated outcomes x {small, big} NLRI; every attribute set (mkmsg's and 8 further AS_PATH / AGGREGATOR shapes: 4-byte ASNs next to confederation segments, sets, aggregator) x 16 outcomes (2-byte-AS sessions checked against the RFC 6793 model); End-of-RIB x 16 outcomes; every attribute set forwarded by a modelled OLD speaker to a NEW one".into(),
+        work: w,
+    }
+}
+
+fn ladder_shapes(f: Family, d: &PairDesc) -> Vec<Shape> {
+    let mut v = vec![Shape::Small, Shape::Big];
+    let mx = mkmsg::nlri_wire_len(&mkmsg::nlris(f, NlriSize::Max)[0]);
+    if mx != mkmsg::nlri_wire_len(&mkmsg::nlri_nth(f, 1, true)) {
+        v.push(Shape::MaxThenBig);
+    }
+    if d.tx_addpath() {
+        v.push(Shape::Dup);
+    }
+    v
+}
+
+fn sub_ladder(fams: &[usize], sizes: &[usize], sizes_xmsg: &[usize]) -> Sub {
+    let mut w = Vec::new();
+    for &fi in fams {
+        let f = fam(fi);
+        for d in quick_descs(f) {
+            for shape in ladder_shapes(f, &d) {
+                for &a in if d.ext_msg() { sizes_xmsg } else { sizes } {
+                    w.push(Work::Group(Group { fi, d, reach: true, shape, attr: GroupAttr::Fixed(AttrSpec::Block(a)), nh: 0, counts: CountSel::Ladder }));
+                }
+                w.push(Work::Group(Group { fi, d, reach: false, shape, attr: GroupAttr::Fixed(AttrSpec::Block(13)), nh: 0, counts: CountSel::Ladder }));
+            }
+        }
+    }
+    Sub {
+        name: "ladder",
+        rule: format!("families {fams:?} x 16 negotiated outcomes x shapes {{small, big, largest named + big, duplicate prefixes under add-path}} x (reach with attribute blocks of {sizes:?} bytes ({sizes_xmsg:?} with extended messages) | unreach) x entry counts 0,1,2,k-1,k,k+1,2k,3k+1 (k = entries that fit one frame, computed from a one-entry probe; plus the encoder's own split point when it differs)"),
+        work: w,
+    }
+}
+
+fn sub_band(fams: &[usize], step: usize) -> Sub {
+    let mut w = Vec::new();
+    for &fi in fams {
+        let f = fam(fi);
+        for d in quick_descs(f) {
+            for shape in [Shape::Small, Shape::Big] {
+                for delta in (BAND_LO..=BAND_HI).rev().step_by(step) {
+                    w.push(Work::Group(Group { fi, d, reach: true, shape, attr: GroupAttr::Band(delta), nh: 0, counts: CountSel::Ladder }));
+                }
+            }
+        }
+    }
+    Sub {
+        name: "attr-band",
+        rule: format!("families {fams:?} x 16 outcomes x {{small, big}} x attribute block sized so that overhead + one entry = limit + delta for delta in {BAND_HI}..={BAND_LO} step {step} x the entry-count ladder"),
+        work: w,
+    }
+}
+
+fn sub_align(fams: &[usize], xmsg_too: bool) -> Sub {
+    let mut w = Vec::new();
+    for &fi in fams {
+        let f = fam(fi);
+        for d in quick_descs(f) {
+            if d.ext_msg() && !xmsg_too {
+                continue;
+            }
+            let b = mkmsg::nlri_wire_len(&mkmsg::nlri_nth(f, 1, true)) + if d.tx_addpath() { 4 } else { 0 };
+            for reach in [true, false] {
+                for j in 0..b.min(128) {
+                    w.push(Work::Group(Group { fi, d, reach, shape: Shape::Mix(j), attr: GroupAttr::Fixed(AttrSpec::Block(13)), nh: 0, counts: CountSel::Fill }));
+                }
+            }
+        }
+    }
+    Sub {
+        name: "align",
+        rule: format!("families {fams:?} x {} outcomes x {{reach, unreach}} x j small entries followed by big ones for j in 0..min(big size, 128) (every alignment of the last entry against the frame limit) x counts k,k+1,k+2", if xmsg_too { "16" } else { "the 8 non-extended-message" }),
+        work: w,
+    }
+}
+
+fn sub_pairs(fams: &[usize]) -> Sub {
+    let mut w = Vec::new();
+    for &fi in fams {
+        let f = fam(fi);
+        for d in all_descs(f) {
+            for shape in [Shape::Small, Shape::Big] {
+                for reach in [true, false] {
+                    w.push(Work::Group(Group { fi, d, reach, shape, attr: GroupAttr::Fixed(AttrSpec::Block(13)), nh: 0, counts: CountSel::Short }));
+                }
+            }
+            for (nh, c) in mkmsg::nexthops(f).iter().enumerate().skip(1) {
+                if c.needs_ext_nh && !d.ext_nh() {
+                    continue;
+                }
+                w.push(Work::Upd(UpdCase { fi, d, reach: true, shape: Shape::Big, attr: AttrSpec::Block(13), nh, n: 2 }));
+            }
+            // a 4-byte AS path and aggregator under every pairing
+            for (i, (name, _)) in attribute_sets().iter().enumerate() {
+                if name == "as_path#3" || name == "aggregator#1" {
+                    w.push(Work::Upd(UpdCase { fi, d, reach: true, shape: Shape::Small, attr: AttrSpec::Set(i), nh: 0, n: 1 }));
+                }
+            }
+        }
+    }
+    Sub {
+        name: "pairs-1024",
+        rule: format!("families {fams:?} x all 1024 (local, remote) capability pairs x {{small, big}} x {{reach, unreach}} x counts 1,2,k,k+1; every further valid next hop; a 4-byte AS_PATH and AGGREGATOR"),
+        work: w,
+    }
+}
+
+fn sub_open() -> Sub {
+    let mut w: Vec<String> = Vec::new();
+    for i in 0..mkmsg::opens().len() {
+        w.push(format!("open:set:{i}"));
+    }
+    for i in 0..mkmsg::capability_sets_oversize().len() {
+        w.push(format!("open:over:{i}"));
+    }
+    for n in 0..=mkmsg::families().len() {
+        for bits in 0..16u32 {
+            w.push(format!("open:daemon:{n}:{}:{}:{}:{}", bits & 1, bits >> 1 & 1, bits >> 2 & 1, bits >> 3 & 1));
+        }
+    }
+    for total in 16..=20 {
+        w.push(format!("open:fill:{total}"));
+    }
+    for total in 230..=300 {
+        w.push(format!("open:fill:{total}"));
+    }
+    for len in (0..=4).chain(249..=258) {
+        w.push(format!("open:unk:{len}"));
+    }
+    for (h, d) in [(0, 0), (1, 0), (64, 64), (126, 126), (126, 127), (127, 127), (200, 53), (200, 54), (255, 0), (255, 255)] {
+        w.push(format!("open:fqdn:{h}:{d}"));
+    }
+    Sub {
+        name: "open",
+        rule: "every mkmsg OPEN (each capability kind, duplicates, hold / id / AS boundary values); the daemon's capability list for its first n families, n = 0..19, x add-path x GR x LLGR x IPv6 transport (extended next hop); capability bytes 16..20 and every total 230..300; one unknown capability of 0..4 and 249..258 bytes; FQDN length boundaries".into(),
+        work: w.into_iter().map(Work::Other).collect(),
+    }
+}
+
+fn sub_simple() -> Sub {
+    let mut w: Vec<String> = Vec::new();
+    for x in ["n", "x"] {
+        for i in 0..mkmsg::notifications().len() {
+            w.push(format!("notif:{i}:{x}"));
+        }
+        for i in 0..mkmsg::route_refreshes().len() {
+            w.push(format!("rr:{i}:{x}"));
+        }
+        w.push(format!("keepalive:{x}"));
+        let max: usize = if x == "x" { 65535 } else { 4096 };
+        // data of a NOTIFICATION that echoes a received frame: up to a whole maximal frame
+        for len in [max - 23, max - 22, max - 21, max - 20, max - 19, max - 1, max] {
+            w.push(format!("notifbig:{len}:{x}"));
+        }
+    }
+    Sub {
+        name: "simple",
+        rule: "every NOTIFICATION variant, ROUTE-REFRESH for every family, KEEPALIVE, with and without extended messages; NOTIFICATION data length (echo of a received frame) around limit-21 and up to a maximal frame".into(),
+        work: w.into_iter().map(Work::Other).collect(),
+    }
+}
+
+fn run_sub(s: &Sub, rep: &mut Report, acc: &Mutex<Acc>) {
+    let t0 = std::time::Instant::now();
+    let before = {
+        let a = acc.lock().unwrap();
+        (a.evals, a.wire.len(), a.viols.len())
+    };
+    par_range(s.work.len() as u64, rep, |i, _| {
+        let mut l = Local::default();
+        match &s.work[i as usize] {
+            Work::Group(g) => run_group(g, s.name, &mut l),
+            Work::Upd(c) => match eval_upd_case(c) {
+                Ok(o) => {
+                    let al = c.attr.attrs().map(|a| mkmsg::attrs_wire_len(&a)).unwrap_or(0);
+                    l.take(c, al, o, s.name)
+                }
+                Err(e) => l.machinery = Some(format!("{}: {e}", c.name())),
+            },
+            Work::Other(case) => match eval_other(case) {
+                Ok(vs) => {
+                    l.evals += 1;
+                    l.tally.push(format!("{}: outcome {}", s.name, if vs.is_empty() { "ok" } else { "violation" }));
+                    l.hashes.push(hash64(case.as_bytes()));
+                    l.sample = Some(case.clone());
+                    for v in vs {
+                        let w0 = if case.starts_with("open:daemon") { 0 } else if case.starts_with("open:") { 1 } else { 0 };
+                        l.viols.push(((w0, 0, case.len()), v));
+                    }
+                }
+                Err(e) => l.machinery = Some(format!("{case}: {e}")),
+            },
+        }
+        let mut a = acc.lock().unwrap();
+        a.evals += l.evals;
+        for (w, v) in l.viols {
+            a.add_viols(w, vec![v]);
+        }
+        a.wire.extend(l.hashes);
+        for t in l.tally {
+            a.tally(&t);
+        }
+        if let Some(sm) = l.sample {
+            if i % 997 == 0 && a.samples.len() < 12 {
+                a.samples.push(sm);
+            }
+        }
+        if a.machinery.is_none() {
+            a.machinery = l.machinery;
+        }
+    });
+    let a = acc.lock().unwrap();
+    rep.notes.push(format!(
+        "{}: {} work items, {} cases evaluated, {} new distinct wire encodings, {} new violation signatures, {:.1}s -- {}",
+        s.name, s.work.len(), a.evals - before.0, a.wire.len() - before.1, a.viols.len() - before.2, t0.elapsed().as_secs_f64(), s.rule
+    ));
+}
+
 pub fn run(replay: Option<&str>) -> Report {
     let mut rep = Report::new("C04", "hx-c04");
-    rep.rule = "SMOKE TEST of the shared generators: one case per generated value (family x NLRI value x reach/unreach, \
-        next-hop case, attribute set, 16 negotiated capability outcomes x min/max NLRI, OPEN/NOTIFICATION/ROUTE-REFRESH value); \
-        a case = encode with negotiate(local,remote), independent frame/NLRI walk, decode with negotiate(remote,local), compare; \
-        distinct = distinct wire encodings produced".to_string();
+    rep.rule = "a case = one Message (OPEN / UPDATE reach, unreach, End-of-RIB / NOTIFICATION / KEEPALIVE / ROUTE-REFRESH) x one (local, remote) capability pair: \
+        encode with negotiate(local, remote).encode_to, independent frame / attribute / NLRI walk of the bytes left in the buffer, decode with \
+        negotiate(remote, local).try_parse, compare with the submitted value, re-encode every decoded value; UPDATE cases are enumerated per \
+        (family, pair, op, NLRI shape, attribute block) over an entry-count ladder around the measured frame capacity and over an attribute-size band \
+        around 'one entry still fits'; distinct = distinct byte strings produced by the encoder (cases that negotiate the same outcome collapse)".to_string();
     if let Some(case) = replay {
-        match eval_case(case) {
+        let r = match UpdCase::parse(case) {
+            Some(c) => eval_upd_case(&c).map(|o| {
+                eprintln!("replay: {} frame(s), largest {} bytes (limit {}), first frame carries {:?} entries, outcome {}", o.frames, o.max_frame, c.d.max_len(), o.first_entries, o.class);
+                o.viols
+            }),
+            None => eval_other(case),
+        };
+        match r {
             Ok(vs) => {
                 for v in &vs {
                     eprintln!("replay: {} :: {}", v.sig, v.what);
                 }
                 if vs.is_empty() {
-                    eprintln!("replay: case {case} round-trips");
+                    eprintln!("replay: case {case} satisfies every clause");
                 }
                 rep.evaluations = 1;
                 rep.violations_from(vs);
@@ -713,52 +2281,39 @@ pub fn run(replay: Option<&str>) -> Report {
         rep.machinery_error = Some(format!("wire self-test: {e}"));
         return rep;
     }
-    let cases = all_cases();
-    let mut per_group: BTreeMap<String, (u64, u64)> = BTreeMap::new();
-    let mut distinct = std::collections::BTreeSet::new();
-    for (i, case) in cases.iter().enumerate() {
-        let vs = match eval_case(case) {
-            Ok(v) => v,
-            Err(e) => {
-                rep.machinery_error = Some(e);
-                return rep;
-            }
-        };
-        rep.evaluations += 1;
-        let group = {
-            let p: Vec<&str> = case.split(':').collect();
-            match p[0] {
-                "nlri" | "all" | "nh" | "pair" | "eor" | "codeonly" | "attr" => format!("{}:{}", p[0], mkmsg::family_name(fam(p[1].parse().unwrap_or(0)))),
-                o => o.to_string(),
-            }
-        };
-        let e = per_group.entry(group).or_insert((0, 0));
-        e.0 += 1;
-        if vs.is_empty() {
-            e.1 += 1;
-        }
-        distinct.insert(case.clone());
-        rep.sample(i as u64, || case.clone());
-        rep.violations_from(vs);
+    let thorough = rep.thorough();
+    let nf = mkmsg::families().len();
+    let all: Vec<usize> = (0..nf).collect();
+    let mut subs = vec![sub_values(thorough), sub_open(), sub_simple()];
+    if thorough {
+        subs.push(sub_ladder(&all, &[13, 40, 255, 256, 1000, 4000], &[13, 40, 255, 256, 1000, 4000, 65000]));
+        subs.push(sub_band(&all, 1));
+        subs.push(sub_align(&all, true));
+        // ipv4 (legacy + RFC 8950), ipv6, ipv6-vpn, l2vpn-evpn
+        subs.push(sub_pairs(&[0, 1, 7, 8]));
+    } else {
+        subs.push(sub_ladder(&all, &[13, 255, 256], &[13]));
+        subs.push(sub_band(&all, 3));
+        subs.push(sub_align(&all, false));
     }
-    rep.distinct_nontrivial = distinct.len() as u64;
-    // one note per kind of case, summed over families, then the per-family NLRI line
-    let mut by_kind: BTreeMap<String, (u64, u64)> = BTreeMap::new();
-    for (g, (n, ok)) in &per_group {
-        let k = g.split(':').next().unwrap().to_string();
-        let e = by_kind.entry(k).or_insert((0, 0));
-        e.0 += n;
-        e.1 += ok;
+    let acc = Mutex::new(Acc::default());
+    for s in &subs {
+        run_sub(s, &mut rep, &acc);
     }
-    for (k, (n, ok)) in &by_kind {
-        rep.notes.push(format!("smoke: {k}: {ok}/{n} generated cases round-trip"));
+    let acc = acc.into_inner().unwrap();
+    rep.evaluations = acc.evals;
+    rep.distinct_nontrivial = acc.wire.len() as u64;
+    rep.samples = acc.samples;
+    for (k, n) in &acc.tally {
+        rep.notes.push(format!("tally: {k}: {n}"));
     }
-    for (g, (n, ok)) in &per_group {
-        if ok != n {
-            rep.notes.push(format!("smoke: {g}: only {ok}/{n} round-trip (see violations / notes/gen-findings.md)"));
-        }
+    for (_, (_, v, n)) in acc.viols {
+        rep.violations.insert(v.sig.clone(), (v, n));
     }
-    rep.notes.push("assume: smoke test only - the C04 oracle (size ladders, frame limits, all 1024 pairs, AS4 reconciliation) is not implemented yet".into());
+    rep.machinery_error = acc.machinery;
+    rep.notes.push("assume: the NLRI content of flowspec / BGP-LS / MUP / SR-policy is read with the repository's own decoder under the peer's codec (no independent walker for these families); framing, lengths and attribute structure are read independently for all families".into());
+    rep.notes.push("assume: an Err from encode_to is accepted only for an input that cannot be encoded and only if the buffer holds nothing but complete well-formed frames; Reach / Unreach with zero entries are checked for framing only".into());
+    rep.notes.push("assume: 1024 capability pairs are run on 4 families (thorough); elsewhere the 16 pairs that reach every negotiated outcome (2-byte AS, extended message, extended next hop, add-path tx)".into());
     rep.exhaustive = true;
     rep
 }
